@@ -27,13 +27,15 @@ Definition PreCommitGuard (s : nstate) : Prop := amev_on cfg s = true /\ prep_qu
 
 Definition G (s : nstate) (c : call) : Prop :=
   match c with
-  | CBroadcast p => match p_type p with
-                    | PrepareResponseT => RespGuard s p
-                    | CommitT => CommitGuard s
-                    | PreCommitT => PreCommitGuard s
-                    | _ => True end
-  | CProcessBlock _ _ => commit_quorum s
+  | CBroadcast p => (match p_type p with
+                     | PrepareResponseT => RespGuard s p
+                     | CommitT => CommitGuard s
+                     | PreCommitT => PreCommitGuard s
+                     | _ => True end) /\
+                    (p_type p <> RecoveryMessageT -> blockProcessed s = false)   (* C05: after the decision only recovery replies *)
+  | CProcessBlock _ _ => commit_quorum s /\ blockProcessed s = false            (* C05: at most one hand-over per height *)
   | CProcessPreBlock _ _ => amev_on cfg s = true /\ precommit_quorum s /\ preBlockProcessed s = false
+  | CTimerReset h v _ => h = BlockIndex s /\ v = ViewNumber s        (* C10: the timer is armed for the node's epoch at that instant *)
   | _ => True
   end.
 
@@ -55,12 +57,13 @@ Definition Inv (s : nstate) : Prop :=
   tall is_prep (PreparationPayloads s) /\ tall (fun p => p_type p = PreCommitT) (PreCommitPayloads s) /\
   tall (fun p => p_type p = CommitT) (CommitPayloads s) /\ tall (fun p => p_type p = ChangeViewT) (ChangeViewPayloads s) /\
   tall (fun p => p_type p = ChangeViewT) (LastChangeViewPayloads s).
-Definition RIr (a b : nstate) : Prop := Inv a -> Inv b.
-Definition RI : rel := mkRel RIr (fun s H => H) (fun a b c H1 H2 H => H2 (H1 H)).
+Definition RIr (a b : nstate) : Prop := (Inv a -> Inv b) /\ blockProcessed b = blockProcessed a.
+Definition RI : rel := mkRel RIr (fun s => conj (fun H => H) eq_refl)
+                             (fun a b c H1 H2 => conj (fun H => proj1 H2 (proj1 H1 H)) (eq_trans (proj2 H2) (proj2 H1))).
 Lemma RF_RI a b : RF a b -> RI a b.
 Proof.
-  unfold RF, RFr, RI, RIr, Inv. cbn. intros (_ & _ & _ & _ & _ & _ & _ & E1 & E2 & E3 & _ & _ & E4 & E5) (I1 & I2 & I3 & I4 & I5).
-  rewrite E1, E2, E3, E4, E5. repeat split; assumption.
+  unfold RF, RFr, RI, RIr, Inv. cbn. intros (_ & _ & _ & _ & _ & _ & _ & E1 & E2 & E3 & _ & EB & E4 & E5). split; [|exact EB].
+  intros (I1 & I2 & I3 & I4 & I5). rewrite E1, E2, E3, E4, E5. repeat split; assumption.
 Qed.
 
 Ltac leafG :=
@@ -69,11 +72,12 @@ Ltac leafG :=
   | |- rel_R RF _ _ => unfold RF, RFr; cbn; repeat split; reflexivity
   | |- rel_R relT _ _ => exact I
   | |- rel_R RI _ _ => unfold RI, RIr, Inv, empty_tbl; cbn;
-        let H := fresh in intro H; destruct H as (?I1 & ?I2 & ?I3 & ?I4 & ?I5);
         repeat match goal with |- context[if ?b then _ else _] => destruct b end; cbn;
+        (split; [|reflexivity]);
+        let H := fresh in intro H; destruct H as (?I1 & ?I2 & ?I3 & ?I4 & ?I5);
         repeat split; first [assumption | apply tall_empty]
   | H : _ = Some ?a |- G _ ?c =>
-      first [ try (destruct a); apply sel_Broadcast in H; subst c; unfold mk_payload; cbn; exact I
+      first [ try (destruct a); apply sel_Broadcast in H; subst c; unfold mk_payload; cbn; split; [exact I | let Hne := fresh in intro Hne; exfalso; apply Hne; reflexivity]
             | destruct c; try discriminate; exact I ]
   end.
 
@@ -96,7 +100,15 @@ Hint Resolve f_PreCommitSent f_CommitSent f_ResponseSent : rtdb.
 Lemma f_ViewChanging : rtF ViewChanging. Proof. unfold ViewChanging. rt_go leafG. Qed.
 Hint Resolve f_ViewChanging : rtdb.
 Lemma f_StopTxFlow : rtF StopTxFlow. Proof. unfold StopTxFlow. rt_go leafG. Qed.
-Lemma f_changeTimer d : rtF (changeTimer d). Proof. unfold changeTimer. rt_go leafG. Qed.
+Lemma f_changeTimer d : rtF (changeTimer d).
+Proof.
+  intros s0. unfold changeTimer. apply x_get. unfold ask_unit. apply x_ask_last. intros [] c Hc.
+  split; [apply (R_refl RF)|]. apply trG_cons; [|apply trG_nil].
+  destruct c; try discriminate Hc. cbn.
+  destruct ((h =? BlockIndex s0) && (v =? ViewNumber s0) && (d0 =? d)) eqn:E; [|discriminate Hc].
+  apply andb_true_iff in E. destruct E as [E _]. apply andb_true_iff in E. destruct E as [E1 E2].
+  apply Z.eqb_eq in E1, E2. auto.
+Qed.
 Hint Resolve f_StopTxFlow f_changeTimer : rtdb.
 Lemma f_MakeHeader : rtF (MakeHeader cfg). Proof. unfold MakeHeader. rt_go leafG. Qed.
 Lemma f_MakePreHeader : rtF MakePreHeader. Proof. unfold MakePreHeader. rt_go leafG. Qed.
@@ -130,24 +142,41 @@ Hint Resolve i_NotAccepting : rtdb.
 Lemma i_sendRecoveryMessage : rtI sendRecoveryMessage.
 Proof. unfold sendRecoveryMessage, makeRecoveryMessage, broadcast. rt_go leafG. Qed.
 Hint Resolve i_sendRecoveryMessage : rtdb.
-Lemma i_sendRecoveryRequest : rtI sendRecoveryRequest.
-Proof. unfold sendRecoveryRequest, broadcast. rt_go leafG. Qed.
-Hint Resolve i_sendRecoveryRequest : rtdb.
+Lemma p_type_set_idx (m : payload) i : p_type (m <| p_idx := i |>) = p_type m.
+Proof. destruct m. reflexivity. Qed.
+Lemma p_body_set_idx (m : payload) i : p_body (m <| p_idx := i |>) = p_body m.
+Proof. destruct m. reflexivity. Qed.
+
+(* ---- undecided states: U s; every non-recovery broadcast and every ProcessBlock needs it ---- *)
+Definition U (s : nstate) : Prop := blockProcessed s = false.
+Lemma RI_U a b : RI a b -> U a -> U b. Proof. intros (_ & E) H. unfold U in *. congruence. Qed.
+Lemma RI_Inv a b : RI a b -> Inv a -> Inv b. Proof. intros (H & _). exact H. Qed.
+Lemma RF_U a b : RF a b -> U a -> U b. Proof. intros H. apply RI_U, RF_RI, H. Qed.
+
+(* broadcasting an ungated, non-recovery payload from an undecided state *)
+Definition ungated (t : mtype) : Prop := t <> PrepareResponseT /\ t <> CommitT /\ t <> PreCommitT.
+Lemma G_broadcast_ungated s m i : ungated (p_type m) -> U s -> G s (CBroadcast (m <| p_idx := i |>)).
+Proof.
+  intros (U1 & U2 & U3) Hu. unfold G. rewrite p_type_set_idx. split; [|intros _; exact Hu].
+  destruct (p_type m); try exact I; congruence.
+Qed.
 
 (* finishing tactics for the manual (table-touching / gate-site) lemmas *)
-Ltac inv_fin :=
-  unfold RI, RIr, Inv, empty_tbl; cbn; let H := fresh in intro H; destruct H as (?I1 & ?I2 & ?I3 & ?I4 & ?I5);
+Ltac inv_set :=
   repeat split;
   first [ assumption | apply tall_empty
         | eapply tall_set; [ | | eassumption ];
           [ eassumption | let p := fresh in let E := fresh in intros p E; try discriminate E; injection E as E; subst; unfold is_prep, mk_payload; cbn; auto ] ].
+Ltac inv_fin :=
+  unfold RI, RIr, Inv, empty_tbl; cbn; split; [|reflexivity];
+  let H := fresh in intro H; destruct H as (?I1 & ?I2 & ?I3 & ?I4 & ?I5); inv_set.
 Ltac gleaf :=
   idtac; match goal with
   | |- G _ ?c =>
       match goal with
       | H : _ = Some ?a |- _ =>
           match type of H with context[c] =>
-            first [ try (destruct a); apply sel_Broadcast in H; subst c; unfold mk_payload; cbn; auto
+            first [ try (destruct a); apply sel_Broadcast in H; subst c; unfold mk_payload; cbn; split; [exact I|let Hne := fresh in intro Hne; exfalso; apply Hne; reflexivity]
                   | destruct c; try discriminate H; exact I ] end
       end
   end.
@@ -157,7 +186,6 @@ Ltac fin := split; [try solve [inv_fin] | try solve [trg]].
 Lemma i_makeChangeView ts r : rtI (makeChangeView ts r).
 Proof. intros s0. unfold makeChangeView. xs. fin. Qed.
 Hint Resolve i_makeChangeView : rtdb.
-
 Lemma i_makePrepareResponse : rtI makePrepareResponse.
 Proof. intros s0. unfold makePrepareResponse. xs; fin. Qed.
 Hint Resolve i_makePrepareResponse : rtdb.
@@ -166,12 +194,13 @@ Lemma slot_get tbl i o : 0 <= i -> nth_chk tbl (Z.to_nat i) = Some o -> slot tbl
 Proof. intros Hi H. unfold slot. destruct (i <? 0) eqn:E; [lia|]. rewrite H. reflexivity. Qed.
 
 (* gate site: a PrepareResponse names the hash of the payload in the primary's slot; all transactions present *)
-Lemma g_sendPrepareResponse s0 : hasAllTransactions s0 = true ->
+Lemma g_sendPrepareResponse s0 : hasAllTransactions s0 = true -> U s0 ->
   hx s0 sendPrepareResponse (fun _ s tr => RI s0 s /\ trG G tr).
 Proof.
-  intros Hall. unfold sendPrepareResponse, makePrepareResponse, StopTxFlow, broadcast, ask_unit. xs.
+  intros Hall Hu. unfold sendPrepareResponse, makePrepareResponse, StopTxFlow, broadcast, ask_unit. xs.
   split; [inv_fin|]. apply trG_cons; [gleaf|]. apply trG_cons; [|apply trG_nil].
   destruct a0. apply sel_Broadcast in Hc0. subst c0. unfold G, mk_payload. cbn.
+  split; [|intros _; exact Hu].
   unfold RespGuard. cbn. split; [exact Hall|]. exists p. split; [reflexivity|].
   intros Hne. apply slot_get; [exact Hi|]. rewrite (nth_set_other _ _ _ _ _ Hl); [exact Hx|]. lia.
 Qed.
@@ -202,11 +231,6 @@ Proof.
     + rewrite app_nil_r. split; [exact HR|split; [exact HT|discriminate]].
 Qed.
 
-Lemma p_type_set_idx (m : payload) i : p_type (m <| p_idx := i |>) = p_type m.
-Proof. destruct m. reflexivity. Qed.
-Lemma p_body_set_idx (m : payload) i : p_body (m <| p_idx := i |>) = p_body m.
-Proof. destruct m. reflexivity. Qed.
-
 Lemma CommitGuard_frame s0 s1 l : RF s0 s1 -> CommitGuard s0 -> CommitGuard (s1 <| CommitPayloads := l |>).
 Proof.
   unfold RF, RFr, CommitGuard, prep_quorum, precommit_quorum, amev_on, hasAllTransactions, Mq, F, N. cbn.
@@ -218,38 +242,39 @@ Proof.
   intros (E1 & E2 & E3 & E4 & E5 & E6 & E7 & E8 & _). rewrite E1, E2, E3, E6, E7, E8. auto.
 Qed.
 
-Lemma g_sendCommit s0 : Inv s0 -> CommitGuard s0 -> hx s0 (sendCommit cfg) (fun _ s tr => RI s0 s /\ trG G tr /\ BlockIndex s = BlockIndex s0).
+Lemma g_sendCommit s0 : Inv s0 -> U s0 -> CommitGuard s0 -> hx s0 (sendCommit cfg) (fun _ s tr => RI s0 s /\ trG G tr /\ BlockIndex s = BlockIndex s0).
 Proof.
-  intros HI HG. unfold sendCommit. eapply x_call; [apply (t_makeCommit s0 HI)|].
+  intros HI Hu HG. unfold sendCommit. eapply x_call; [apply (t_makeCommit s0 HI)|].
   intros r s1 n1 (HR & HT & Hty). cbn beta. pose proof (RF_RI _ _ HR) as HRI. destruct r as [msg|].
   - specialize (Hty msg eq_refl). unfold broadcast. xs.
     split; [|split].
-    + unfold RI, RIr. cbn. intros _. specialize (HRI HI). destruct HRI as (I1 & I2 & I3 & I4 & I5).
+    + unfold RI, RIr. cbn. split; [|apply HRI]. intros _. pose proof (RI_Inv _ _ HRI HI) as (I1 & I2 & I3 & I4 & I5).
       unfold Inv. cbn. repeat split; auto. eapply tall_set; [exact I3| |eassumption]. intros p [= <-]. exact Hty.
     + apply trG_app; [exact HT|]. apply trG_cons; [|apply trG_nil].
       destruct a. apply sel_Broadcast in Hc. subst c. unfold G. rewrite p_type_set_idx, Hty.
-      eapply CommitGuard_frame; eauto.
+      split; [eapply CommitGuard_frame; eauto|]. intros _. cbn. exact (RF_U _ _ HR Hu).
     + cbn. apply HR.
   - xs. rewrite app_nil_r. split; [exact HRI|split; [exact HT|apply HR]].
 Qed.
-Lemma g_sendPreCommit s0 : Inv s0 -> PreCommitGuard s0 -> hx s0 sendPreCommit (fun _ s tr => RI s0 s /\ trG G tr /\ BlockIndex s = BlockIndex s0).
+Lemma g_sendPreCommit s0 : Inv s0 -> U s0 -> PreCommitGuard s0 -> hx s0 sendPreCommit (fun _ s tr => RI s0 s /\ trG G tr /\ BlockIndex s = BlockIndex s0).
 Proof.
-  intros HI HG. unfold sendPreCommit. eapply x_call; [apply (t_makePreCommit s0 HI)|].
+  intros HI Hu HG. unfold sendPreCommit. eapply x_call; [apply (t_makePreCommit s0 HI)|].
   intros r s1 n1 (HR & HT & Hty). cbn beta. pose proof (RF_RI _ _ HR) as HRI. destruct r as [msg|].
   - specialize (Hty msg eq_refl). unfold broadcast. xs.
     split; [|split].
-    + unfold RI, RIr. cbn. intros _. specialize (HRI HI). destruct HRI as (I1 & I2 & I3 & I4 & I5).
+    + unfold RI, RIr. cbn. split; [|apply HRI]. intros _. pose proof (RI_Inv _ _ HRI HI) as (I1 & I2 & I3 & I4 & I5).
       unfold Inv. cbn. repeat split; auto. eapply tall_set; [exact I2| |eassumption]. intros p [= <-]. exact Hty.
     + apply trG_app; [exact HT|]. apply trG_cons; [|apply trG_nil].
       destruct a. apply sel_Broadcast in Hc. subst c. unfold G. rewrite p_type_set_idx, Hty.
-      eapply PreCommitGuard_frame; eauto.
+      split; [eapply PreCommitGuard_frame; eauto|]. intros _. cbn. exact (RF_U _ _ HR Hu).
     + cbn. apply HR.
   - xs. rewrite app_nil_r. split; [exact HRI|split; [exact HT|apply HR]].
 Qed.
 
 (* clearing a slot keeps the tables typed *)
-Ltac clear_fin HR HI := 
-  unfold RI, RIr; cbn; intros HI; specialize (HR HI); destruct HR as (?I1 & ?I2 & ?I3 & ?I4 & ?I5); unfold Inv; cbn; repeat split; auto;
+Ltac clear_fin HR :=
+  let HI := fresh in
+  unfold RI, RIr; cbn; split; [|apply HR]; intros HI; pose proof (RI_Inv _ _ HR HI) as (?I1 & ?I2 & ?I3 & ?I4 & ?I5); unfold Inv; cbn; repeat split; auto;
   eapply tall_set; [ | | eassumption]; [eassumption|intros ? ?; discriminate].
 
 Lemma i_verifyCommits : rtI (verifyCommitPayloadsAgainstHeader cfg).
@@ -257,25 +282,34 @@ Proof.
   unfold verifyCommitPayloadsAgainstHeader. apply rt_get_bind. intros s. apply rt_forM. intros i s0. xs.
   - eapply x_rt; [apply (toI _ f_MakeHeader)|]. intros hb s1 n1 HR HT. cbn beta. xs.
     + rewrite app_nil_r. split; auto.
-    + split; [|rewrite app_nil_r; exact HT]. clear_fin HR HI.
+    + split; [|rewrite app_nil_r; exact HT]. clear_fin HR.
     + rewrite app_nil_r. split; auto.
   - split; [apply (R_refl RI)|apply trG_nil].
   - split; [apply (R_refl RI)|apply trG_nil].
 Qed.
 Hint Resolve i_verifyCommits : rtdb.
-
 Lemma i_verifyPreCommits : rtI verifyPreCommitPayloadsAgainstPreBlock.
 Proof.
   unfold verifyPreCommitPayloadsAgainstPreBlock. apply rt_get_bind. intros s.
   destruct (negb (hasAllTransactions s)); [apply rt_ret|]. apply rt_forM. intros i s0. xs.
   - eapply x_rt; [apply (toI _ f_CreatePreBlock)|]. intros hb s1 n1 HR HT. cbn beta. xs.
     + rewrite app_nil_r. split; auto.
-    + split; [|rewrite app_nil_r; exact HT]. clear_fin HR HI.
+    + split; [|rewrite app_nil_r; exact HT]. clear_fin HR.
     + rewrite app_nil_r. split; auto.
   - split; [apply (R_refl RI)|apply trG_nil].
   - split; [apply (R_refl RI)|apply trG_nil].
 Qed.
 Hint Resolve i_verifyPreCommits : rtdb.
+
+Lemma i_updateExistingPayloads msg : rtI (updateExistingPayloads cfg msg).
+Proof.
+  unfold updateExistingPayloads. apply rt_bind.
+  - apply rt_modify. intros s. unfold RI, RIr. cbn. split; [|reflexivity]. intros (I1 & I2 & I3 & I4 & I5). unfold Inv. cbn. repeat split; auto.
+    apply tall_map; [|exact I1]. intros o p. destruct o as [m|]; [|discriminate].
+    destruct (mtype_eqb (p_type m) PrepareResponseT && negb (hash_eqb (resp_prephash m) (payload_hash msg))); [discriminate|auto].
+  - intros _. rt_go leafG.
+Qed.
+Hint Resolve i_updateExistingPayloads : rtdb.
 
 Lemma commit_quorum_frame s0 s1 : RF s0 s1 -> hasAllTransactions s0 = true -> Mq s0 <= count_view (ViewNumber s0) (CommitPayloads s0) -> commit_quorum s1.
 Proof.
@@ -283,24 +317,23 @@ Proof.
   rewrite E2, E3, E6, E7, E10. auto.
 Qed.
 
-Lemma i_checkCommit : rtI (checkCommit cfg).
+(* may decide: needs an undecided state *)
+Lemma b_checkCommit s0 : Inv s0 -> U s0 -> hx s0 (checkCommit cfg) (fun _ s tr => Inv s /\ trG G tr).
 Proof.
-  intros s0. unfold checkCommit. apply x_get.
-  destruct (negb (hasAllTransactions s0)) eqn:Ea; [apply x_ret; split; [apply (R_refl RI)|apply trG_nil]|]. apply negb_false_iff in Ea.
-  cbv zeta. destruct (count_view (ViewNumber s0) (CommitPayloads s0) <? Mq s0) eqn:Ec; [apply x_ret; split; [apply (R_refl RI)|apply trG_nil]|].
+  intros HI Hu. unfold checkCommit. apply x_get.
+  destruct (negb (hasAllTransactions s0)) eqn:Ea; [apply x_ret; split; [exact HI|apply trG_nil]|]. apply negb_false_iff in Ea.
+  cbv zeta. destruct (count_view (ViewNumber s0) (CommitPayloads s0) <? Mq s0) eqn:Ec; [apply x_ret; split; [exact HI|apply trG_nil]|].
   apply Z.ltb_ge in Ec.
-  eapply x_rt; [apply f_CreateBlock|]. intros b s1 n1 HR HT. cbn beta. pose proof (RF_RI _ _ HR) as HRI.
-  pose proof (commit_quorum_frame _ _ HR Ea Ec) as HQ.
+  eapply x_rt; [apply f_CreateBlock|]. intros b s1 n1 HR HT. cbn beta. pose proof (RI_Inv _ _ (RF_RI _ _ HR) HI) as I1.
+  pose proof (commit_quorum_frame _ _ HR Ea Ec) as HQ. pose proof (RF_U _ _ HR Hu) as U1.
   xs.
-  all: try (rewrite app_nil_r; split; [exact HRI|exact HT]).
+  all: try (rewrite app_nil_r; split; [exact I1|exact HT]).
   all: match goal with
-       | |- _ /\ _ => split; [try (eapply (R_trans RI); [exact HRI|]; unfold RI, RIr, Inv; cbn; auto)|apply trG_app; [exact HT|]]
+       | |- _ /\ _ => split; [try (unfold Inv in *; cbn; exact I1)|apply trG_app; [exact HT|]]
        end.
   all: try (apply trG_cons; [|apply trG_nil]).
-  all: try (match goal with H : _ = Some _ |- G _ ?c => destruct c; try discriminate H; exact HQ end).
-  all: try exact HRI.
+  all: try (match goal with H : _ = Some _ |- G _ ?c => destruct c; try discriminate H; split; [exact HQ|exact U1] end).
 Qed.
-Hint Resolve i_checkCommit : rtdb.
 
 (* product of two preorders *)
 Definition rand (R1 R2 : rel) : rel :=
@@ -334,7 +367,7 @@ Proof.
     + rewrite app_nil_r. split; [split|]; auto.
     + split; [split|rewrite app_nil_r; exact HT].
       * eapply (R_trans RG); [exact HRG|]. unfold RG, RGr; cbn; repeat split; reflexivity.
-      * clear_fin HRI HI.
+      * clear_fin HRI.
     + rewrite app_nil_r. split; [split|]; auto.
   - split; [apply (R_refl (rand RG RI))|apply trG_nil].
   - split; [apply (R_refl (rand RG RI))|apply trG_nil].
@@ -346,66 +379,103 @@ Proof.
   rewrite E2, E3, E5, E6, E8. auto.
 Qed.
 
+(* ---- step tactics for the manual proofs: the current state of the goal [hx s0 ..] has [Inv s0] (and maybe [U s0]) in context ---- *)
+Ltac gk :=
+  idtac; match goal with
+  | |- G _ ?c =>
+      match goal with
+      | H : _ = Some ?a |- _ =>
+          match type of H with context[c] =>
+            first [ try (destruct a); apply sel_Broadcast in H; subst c; unfold mk_payload; cbn; split; [exact Logic.I|let Hne := fresh in intro Hne; exfalso; apply Hne; reflexivity]
+                  | destruct c; try discriminate H; exact Logic.I ] end
+      end
+  end.
+Ltac trs := rewrite ?app_nil_r; repeat first [ assumption | apply trG_nil | apply trG_app | apply trG_cons; [solve [gk]|] ].
+(* call a helper with an rtI lemma: Inv and U of the current state are carried over *)
+Ltac istep L :=
+  lazymatch goal with |- hx ?s0 _ _ =>
+    eapply x_rt; [apply L|];
+    let a := fresh "r" in let s := fresh "s" in let n := fresh "n" in let HR := fresh "HR" in let HT := fresh "HT" in
+    intros a s n HR HT; cbn beta;
+    try (match goal with H : Inv s0 |- _ => pose proof (RI_Inv _ _ HR H) end);
+    try (match goal with H : U s0 |- _ => pose proof (RI_U _ _ HR H) end)
+  end.
+Ltac istepd L :=
+  lazymatch goal with |- hx ?s0 _ _ =>
+    eapply x_rt; [apply L|];
+    let a := fresh "r" in let s := fresh "s" in let n := fresh "n" in let HR := fresh "HR" in let HT := fresh "HT" in
+    intros a s n HR HT; cbn beta;
+    try (match goal with H : Inv s0 |- _ => pose proof (RI_Inv _ _ HR H) end);
+    try (match goal with H : U s0 |- _ => pose proof (RI_U _ _ HR H) end);
+    destruct a
+  end.
+Ltac ilast L :=
+  lazymatch goal with |- hx ?s0 _ _ =>
+    eapply x_rt_last; [apply L|];
+    let a := fresh "r" in let s := fresh "s" in let n := fresh "n" in let HR := fresh "HR" in let HT := fresh "HT" in
+    intros a s n HR HT;
+    try (match goal with H : Inv s0 |- _ => pose proof (RI_Inv _ _ HR H) end);
+    split; [assumption|trs]
+  end.
+Ltac kret := apply x_ret; split; [assumption|trs].
+
 (* the tail of checkPreCommit once the pre-block has been processed *)
 Definition cpc_tail : M unit :=
   ps <- PreCommitSent ;;
   if ps then
     verifyCommitPayloadsAgainstHeader cfg ;;; sendCommit cfg ;;; s <- get ;; changeTimer (timePerBlock s) ;;; checkCommit cfg
   else _ <- WatchOnly ;; ret tt.
-Lemma g_cpc_tail s2 : amev_on cfg s2 = true -> Inv s2 -> precommit_quorum s2 -> preBlockProcessed s2 = true ->
-  hx s2 cpc_tail (fun _ s tr => RI s2 s /\ trG G tr).
+Lemma g_cpc_tail s2 : amev_on cfg s2 = true -> Inv s2 -> U s2 -> precommit_quorum s2 -> preBlockProcessed s2 = true ->
+  hx s2 cpc_tail (fun _ s tr => Inv s /\ trG G tr).
 Proof.
-  intros Ham HI HQ Hpb. unfold cpc_tail. eapply x_call; [apply (own_slot_spec PreCommitPayloads s2)|].
+  intros Ham HI Hu HQ Hpb. unfold cpc_tail. eapply x_call; [apply (own_slot_spec PreCommitPayloads s2)|].
   intros ps s n (-> & HT & Hown). cbn beta. destruct ps.
   - specialize (Hown eq_refl).
     eapply x_rt; [apply g_verifyCommits|]. intros [] s3 n3 [HG3 HI3] HT3. cbn beta.
+    pose proof (RI_Inv _ _ HI3 HI) as I3. pose proof (RI_U _ _ HI3 Hu) as U3.
     assert (G3 : CommitGuard s3).
     { unfold CommitGuard. destruct HG3 as (E1 & E2 & E3 & E4 & E5 & E6 & E7 & E8 & E9).
       assert (Ea : amev_on cfg s3 = true) by (unfold amev_on in *; rewrite E1; exact Ham). rewrite Ea.
       split; [eapply precommit_quorum_frame; [|exact HQ]; unfold RG, RGr; cbn; repeat split; assumption|].
       split; [congruence|]. rewrite E8, E4. exact Hown. }
-    eapply x_call; [apply (g_sendCommit s3 (HI3 HI) G3)|]. intros [] s4 n4 (HI4 & HT4 & _). cbn beta.
-    apply x_get. eapply x_rt; [apply (toI _ (f_changeTimer (timePerBlock s4)))|]. intros [] s5 n5 HI5 HT5. cbn beta.
-    eapply x_rt_last; [apply i_checkCommit|]. intros [] s6 n6 HI6 HT6.
-    split.
-    + unfold RI, RIr in *. cbn in *. auto.
-    + repeat (apply trG_app; auto).
-  - eapply x_rt; [apply (toI _ f_WatchOnly)|]. intros w s3 n3 HI3 HT3. cbn beta. apply x_ret.
-    rewrite app_nil_r. split; [exact HI3|apply trG_app; auto].
+    eapply x_call; [apply (g_sendCommit s3 I3 U3 G3)|]. intros [] s4 n4 (HI4 & HT4 & _). cbn beta.
+    pose proof (RI_Inv _ _ HI4 I3) as I4. pose proof (RI_U _ _ HI4 U3) as U4.
+    apply x_get. istep (toI _ (f_changeTimer (timePerBlock s4))).
+    eapply x_conseq; [apply b_checkCommit; assumption|]. cbn. intros [] s6 n6 (I6 & T6). split; [exact I6|trs].
+  - istep (toI _ f_WatchOnly). kret.
 Qed.
 
-Lemma g_checkPreCommit s0 : amev_on cfg s0 = true -> Inv s0 ->
-  hx s0 (checkPreCommit cfg) (fun _ s tr => RI s0 s /\ trG G tr).
+Lemma g_checkPreCommit s0 : amev_on cfg s0 = true -> Inv s0 -> U s0 ->
+  hx s0 (checkPreCommit cfg) (fun _ s tr => Inv s /\ trG G tr).
 Proof.
-  intros Ham HI. unfold checkPreCommit. apply x_get.
-  destruct (negb (hasAllTransactions s0)) eqn:Ea; [apply x_ret; split; [apply (R_refl RI)|apply trG_nil]|]. apply negb_false_iff in Ea.
-  cbv zeta. destruct (count_view (ViewNumber s0) (PreCommitPayloads s0) <? Mq s0) eqn:Ec; [apply x_ret; split; [apply (R_refl RI)|apply trG_nil]|].
+  intros Ham HI Hu. unfold checkPreCommit. apply x_get.
+  destruct (negb (hasAllTransactions s0)) eqn:Ea; [kret|]. apply negb_false_iff in Ea.
+  cbv zeta. destruct (count_view (ViewNumber s0) (PreCommitPayloads s0) <? Mq s0) eqn:Ec; [kret|].
   apply Z.ltb_ge in Ec. assert (HQ0 : precommit_quorum s0) by (split; auto).
   eapply x_rt; [apply f_CreatePreBlock|]. intros pb s1 n1 HR HT. cbn beta.
   pose proof (RF_RI _ _ HR) as HRI. pose proof (RF_RG _ _ HR) as HRG. pose proof (precommit_quorum_frame _ _ HRG HQ0) as HQ1.
+  pose proof (RI_Inv _ _ HRI HI) as I1. pose proof (RI_U _ _ HRI Hu) as U1.
   assert (Ham1 : amev_on cfg s1 = true). { unfold amev_on in *. destruct HR as (E1 & _). rewrite E1. exact Ham. }
-  destruct pb as [b|]; [|apply x_ret; rewrite app_nil_r; split; auto].
+  destruct pb as [b|]; [|kret].
   apply x_get. fold cpc_tail.
   destruct (negb (preBlockProcessed s1)) eqn:Ep.
   - apply negb_true_iff in Ep. apply x_assoc. apply x_ask. intros err c Hc. destruct err.
-    + (* ProcessPreBlock failed: wait for more *) apply x_ret_bind. cbn [negb]. apply x_ret.
-      split; [exact HRI|]. apply trG_app; [exact HT|]. apply trG_cons; [|apply trG_nil].
+    + apply x_ret_bind. cbn [negb]. apply x_ret.
+      split; [exact I1|]. apply trG_app; [exact HT|]. apply trG_cons; [|apply trG_nil].
       destruct c; try discriminate Hc. unfold G. auto.
     + apply x_assoc. apply x_modify. apply x_ret_bind. cbn [negb].
       set (s2 := s1 <| preBlockProcessed := true |>).
       eapply x_conseq; [apply (g_cpc_tail s2)|].
       * unfold amev_on, s2 in *. cbn. exact Ham1.
-      * specialize (HRI HI). unfold Inv, s2 in *. cbn. exact HRI.
+      * unfold Inv, s2 in *. cbn. exact I1.
+      * unfold U, s2 in *. cbn. exact U1.
       * unfold precommit_quorum, hasAllTransactions, Mq, F, N, s2 in *. cbn. exact HQ1.
       * reflexivity.
-      * cbn. intros [] s n (HIs & HTs). split.
-        -- unfold RI, RIr in *. cbn in *. intros H0. apply HIs. specialize (HRI H0). unfold Inv, s2 in *. cbn. exact HRI.
-        -- apply trG_app; [exact HT|]. apply trG_cons; [|exact HTs]. destruct c; try discriminate Hc. unfold G. auto.
+      * cbn. intros [] s n (HIs & HTs). split; [exact HIs|].
+        apply trG_app; [exact HT|]. apply trG_cons; [|exact HTs]. destruct c; try discriminate Hc. unfold G. auto.
   - apply negb_false_iff in Ep. apply x_ret_bind. cbn [negb].
-    eapply x_conseq; [apply (g_cpc_tail s1 Ham1 (HRI HI) HQ1 Ep)|].
-    cbn. intros [] s n (HIs & HTs). split.
-    + unfold RI, RIr in *. cbn in *. auto.
-    + apply trG_app; auto.
+    eapply x_conseq; [apply (g_cpc_tail s1 Ham1 I1 U1 HQ1 Ep)|].
+    cbn. intros [] s n (HIs & HTs). split; [exact HIs|trs].
 Qed.
 
 Lemma existsb_is_req_eq l :
@@ -425,58 +495,57 @@ Definition cp_tail : M unit :=
       sendCommit cfg ;;; s <- get ;; changeTimer (timePerBlock s) ;;; checkCommit cfg
   else ret tt.
 
-Lemma g_cp_tail s0 : Inv s0 -> hx s0 cp_tail (fun _ s tr => RI s0 s /\ trG G tr).
+Lemma g_cp_tail s0 : Inv s0 -> U s0 -> hx s0 cp_tail (fun _ s tr => Inv s /\ trG G tr).
 Proof.
-  intros HI. unfold cp_tail. apply x_get.
-  destruct (negb (hasAllTransactions s0)) eqn:Ea; [apply x_ret; split; [apply (R_refl RI)|apply trG_nil]|]. apply negb_false_iff in Ea.
+  intros HI Hu. unfold cp_tail. apply x_get.
+  destruct (negb (hasAllTransactions s0)) eqn:Ea; [kret|]. apply negb_false_iff in Ea.
   cbv zeta. rewrite existsb_is_req_eq.
-  destruct (existsb is_req (PreparationPayloads s0) && (count_view (ViewNumber s0) (PreparationPayloads s0) >=? Mq s0)) eqn:Eq;
-    [|apply x_ret; split; [apply (R_refl RI)|apply trG_nil]].
+  destruct (existsb is_req (PreparationPayloads s0) && (count_view (ViewNumber s0) (PreparationPayloads s0) >=? Mq s0)) eqn:Eq; [|kret].
   apply andb_true_iff in Eq. destruct Eq as [Er Ec]. rewrite Z.geb_leb in Ec. apply Z.leb_le in Ec.
   assert (HQ : prep_quorum s0) by (repeat split; auto).
   destruct (amev_on cfg s0) eqn:Ham.
-  - (* anti-MEV: PreCommit, then the pre-commit stage *)
-    eapply x_call; [apply (g_sendPreCommit s0 HI)|]. { split; auto. }
-    intros [] s1 n1 (HI1 & HT1 & HB1). cbn beta. apply x_get.
+  - eapply x_call; [apply (g_sendPreCommit s0 HI Hu)|]. { split; auto. }
+    intros [] s1 n1 (HI1 & HT1 & HB1). cbn beta. pose proof (RI_Inv _ _ HI1 HI) as I1. pose proof (RI_U _ _ HI1 Hu) as U1.
+    apply x_get.
     eapply x_rt; [apply (f_changeTimer (timePerBlock s1))|]. intros [] s2 n2 HR2 HT2. cbn beta.
     assert (Ham2 : amev_on cfg s2 = true). { unfold amev_on in *. destruct HR2 as (E & _). rewrite E, HB1. exact Ham. }
-    eapply x_conseq; [apply (g_checkPreCommit s2 Ham2)|].
-    + apply (RF_RI _ _ HR2). apply HI1. exact HI.
-    + cbn. intros [] s3 n3 (HI3 & HT3). split.
-      * pose proof (RF_RI _ _ HR2) as H2. unfold RI, RIr in *. cbn in *. auto.
-      * repeat (apply trG_app; auto).
-  - eapply x_call; [apply (g_sendCommit s0 HI)|]. { unfold CommitGuard. rewrite Ham. exact HQ. }
-    intros [] s1 n1 (HI1 & HT1 & _). cbn beta. apply x_get.
-    eapply x_rt; [apply (toI _ (f_changeTimer (timePerBlock s1)))|]. intros [] s2 n2 HI2 HT2. cbn beta.
-    eapply x_rt_last; [apply i_checkCommit|]. intros [] s3 n3 HI3 HT3. split.
-    + unfold RI, RIr in *. cbn in *. auto.
-    + repeat (apply trG_app; auto).
+    pose proof (RF_RI _ _ HR2) as HRI2.
+    eapply x_conseq; [apply (g_checkPreCommit s2 Ham2 (RI_Inv _ _ HRI2 I1) (RI_U _ _ HRI2 U1))|].
+    cbn. intros [] s3 n3 (HI3 & HT3). split; [exact HI3|trs].
+  - eapply x_call; [apply (g_sendCommit s0 HI Hu)|]. { unfold CommitGuard. rewrite Ham. exact HQ. }
+    intros [] s1 n1 (HI1 & HT1 & _). cbn beta. pose proof (RI_Inv _ _ HI1 HI) as I1. pose proof (RI_U _ _ HI1 Hu) as U1.
+    apply x_get. istep (toI _ (f_changeTimer (timePerBlock s1))).
+    eapply x_conseq; [apply b_checkCommit; assumption|]. cbn. intros [] s3 n3 (I3 & T3). split; [exact I3|trs].
 Qed.
 
-Lemma g_checkPrepare s0 : Inv s0 -> hx s0 (checkPrepare cfg) (fun _ s tr => RI s0 s /\ trG G tr).
+Lemma b_checkPrepare s0 : Inv s0 -> U s0 -> hx s0 (checkPrepare cfg) (fun _ s tr => Inv s /\ trG G tr).
 Proof.
-  intros HI. unfold checkPrepare. apply x_get. fold cp_tail.
+  intros HI Hu. unfold checkPrepare. apply x_get. fold cp_tail.
   destruct (negb (lastBlockIndex s0 =? BlockIndex s0) || negb (lastBlockView s0 =? ViewNumber s0)).
   - apply x_assoc. unfold ask_now. apply x_ask. intros t c Hc. apply x_modify.
     eapply x_conseq; [apply g_cp_tail|].
     + unfold Inv in *. cbn. exact HI.
-    + cbn. intros [] s n (HIs & HTs). split.
-      * unfold RI, RIr, Inv in *. cbn in *. auto.
-      * apply trG_cons; [|exact HTs]. destruct c; try discriminate Hc. exact I.
-  - apply x_ret_bind. apply (g_cp_tail s0 HI).
+    + unfold U in *. cbn. exact Hu.
+    + cbn. intros [] s n (HIs & HTs). split; [exact HIs|]. apply trG_cons; [|exact HTs]. destruct c; try discriminate Hc. exact Logic.I.
+  - apply x_ret_bind. apply (g_cp_tail s0 HI Hu).
 Qed.
 
-(* ================= invariant-carrying layer: kp Inv G ================= *)
+(* ================= invariant-carrying layers =================
+   kI x : safe from every state with typed tables (the function protects its gated callbacks itself);
+   kB x : needs an undecided state at entry (it may hand the block over or broadcast). *)
 Notation kI := (kp Inv G).
+Definition kB {A} (x : M A) : Prop := forall s0, Inv s0 -> U s0 -> hx s0 x (fun _ s tr => Inv s /\ trG G tr).
 Lemma k_of_i {A} (x : M A) : rtI x -> kI x.
-Proof. apply rt_kp. intros a b Ha Hab. exact (Hab Ha). Qed.
+Proof. apply rt_kp. intros a b Ha Hab. exact (RI_Inv _ _ Hab Ha). Qed.
 Lemma k_of_f {A} (x : M A) : rtF x -> kI x.
 Proof. intros H. apply k_of_i, toI, H. Qed.
+Lemma b_of_k {A} (x : M A) : kI x -> kB x.
+Proof. intros H s0 HI _. apply (H s0 HI). Qed.
 Hint Resolve k_of_i k_of_f : kpdb.
 Hint Resolve f_WatchOnly f_RequestSentOrReceived f_own_slot f_PreCommitSent f_CommitSent f_ResponseSent f_ViewChanging f_StopTxFlow
      f_changeTimer f_MakeHeader f_MakePreHeader f_CreateBlock f_CreatePreBlock f_makeCommit f_makePreCommit f_extendTimer : kpdb.
 Hint Resolve i_subscribe i_unsubscribe i_GetPrimaryIndex i_getTimestamp i_Fill i_rtt i_processMissingTx i_NotAccepting
-     i_sendRecoveryMessage i_sendRecoveryRequest i_makeChangeView i_makePrepareResponse i_verifyCommits i_verifyPreCommits i_checkCommit : kpdb.
+     i_sendRecoveryMessage i_makeChangeView i_makePrepareResponse i_verifyCommits i_verifyPreCommits i_updateExistingPayloads : kpdb.
 
 Ltac leafK :=
   idtac; match goal with
@@ -488,18 +557,15 @@ Ltac leafK :=
       match goal with
       | H : _ = Some ?a |- _ =>
           match type of H with context[c] =>
-            first [ try (destruct a); apply sel_Broadcast in H; subst c; unfold mk_payload; cbn; exact Logic.I
+            first [ try (destruct a); apply sel_Broadcast in H; subst c; unfold mk_payload; cbn; split; [exact Logic.I|let Hne := fresh in intro Hne; exfalso; apply Hne; reflexivity]
                   | destruct c; try discriminate H; exact Logic.I ] end
       end
   end.
 
-Lemma k_checkPrepare : kI (checkPrepare cfg).
-Proof. intros s0 H0. eapply x_conseq; [apply (g_checkPrepare s0 H0)|]. cbn. intros _ s n (HR & HT). split; [exact (HR H0)|exact HT]. Qed.
-Lemma k_sendPrepareResponse_pre s0 : Inv s0 -> hasAllTransactions s0 = true -> hx s0 sendPrepareResponse (fun _ s tr => Inv s /\ trG G tr).
-Proof. intros H0 Ha. eapply x_conseq; [apply (g_sendPrepareResponse s0 Ha)|]. cbn. intros _ s n (HR & HT). split; [exact (HR H0)|exact HT]. Qed.
-Hint Resolve k_checkPrepare : kpdb.
+(* kp-style steps inside manual proofs (only Inv is carried) *)
+Ltac kstep L := eapply x_kp; [apply L | assumption | let a := fresh "r" in let s := fresh "s" in let n := fresh "n" in let HI := fresh "HI" in let HT := fresh "HT" in intros a s n HI HT; cbn beta].
+Ltac klast L := eapply x_kp_last; [apply L | assumption | let a := fresh "r" in let s := fresh "s" in let n := fresh "n" in let HI := fresh "HI" in let HT := fresh "HT" in intros a s n HI HT; split; [assumption|trs]].
 
-(* keep_changeviews is pure; its result is typed when both inputs are *)
 Lemma keep_changeviews_spec P n : forall i view cvs last s0,
   hx s0 (keep_changeviews i n view cvs last) (fun l s tr => s = s0 /\ tr = [] /\ (tall P cvs -> tall P last -> tall P l)).
 Proof.
@@ -524,302 +590,342 @@ Proof.
 Qed.
 Hint Resolve k_reset : kpdb.
 
-Lemma k_updateExistingPayloads msg : kI (updateExistingPayloads cfg msg).
+Lemma b_sendRecoveryRequest : kB sendRecoveryRequest.
 Proof.
-  unfold updateExistingPayloads. apply kp_bind.
-  - apply kp_modify. intros s (I1 & I2 & I3 & I4 & I5). unfold Inv. cbn. repeat split; auto.
-    apply tall_map; [|exact I1]. intros o p. destruct o as [m|]; [|discriminate].
-    destruct (mtype_eqb (p_type m) PrepareResponseT && negb (hash_eqb (resp_prephash m) (payload_hash msg))); [discriminate|auto].
-  - intros _. kp_go leafK.
+  intros s0 HI Hu. unfold sendRecoveryRequest. istepd (toI _ f_RequestSentOrReceived); apply x_get.
+  - destruct (negb (hasAllTransactions s)); cbn [andb].
+    + istep i_processMissingTx. unfold ask_now. apply x_ask. intros t c Hc. apply x_get. unfold broadcast. apply x_get.
+      unfold ask_unit. apply x_ask_last. intros [] c2 Hc2. apply sel_Broadcast in Hc2. subst c2.
+      split; [assumption|]. apply trG_app; [assumption|]. apply trG_app; [assumption|]. apply trG_cons; [gk|]. apply trG_cons; [|apply trG_nil].
+      apply G_broadcast_ungated; [repeat split; discriminate|assumption].
+    + apply x_ret_bind. unfold ask_now. apply x_ask. intros t c Hc. apply x_get. unfold broadcast. apply x_get.
+      unfold ask_unit. apply x_ask_last. intros [] c2 Hc2. apply sel_Broadcast in Hc2. subst c2.
+      split; [assumption|]. apply trG_app; [assumption|]. apply trG_cons; [gk|]. apply trG_cons; [|apply trG_nil].
+      apply G_broadcast_ungated; [repeat split; discriminate|assumption].
+  - cbn [andb]. apply x_ret_bind. unfold ask_now. apply x_ask. intros t c Hc. apply x_get. unfold broadcast. apply x_get.
+    unfold ask_unit. apply x_ask_last. intros [] c2 Hc2. apply sel_Broadcast in Hc2. subst c2.
+    split; [assumption|]. apply trG_app; [assumption|]. apply trG_cons; [gk|]. apply trG_cons; [|apply trG_nil].
+    apply G_broadcast_ungated; [repeat split; discriminate|assumption].
 Qed.
-Hint Resolve k_updateExistingPayloads : kpdb.
 
-Lemma t_makePrepareRequest force s0 : Inv s0 ->
-  hx s0 (makePrepareRequest cfg force) (fun r s tr => Inv s /\ trG G tr /\ forall m, r = Some m -> p_type m = PrepareRequestT).
+Lemma t_makePrepareRequest force s0 :
+  hx s0 (makePrepareRequest cfg force) (fun r s tr => RI s0 s /\ trG G tr /\ forall m, r = Some m -> p_type m = PrepareRequestT).
 Proof.
-  intros H0. unfold makePrepareRequest. eapply x_kp; [apply (k_of_i _ (i_Fill force))|exact H0|].
-  intros ok s1 n1 I1 T1. cbn beta. destruct ok; cbn [negb].
-  - apply x_get. apply x_ret. rewrite app_nil_r. split; [exact I1|split; [exact T1|]]. intros m [= <-]. reflexivity.
-  - apply x_ret. rewrite app_nil_r. split; [exact I1|split; [exact T1|discriminate]].
+  unfold makePrepareRequest. eapply x_rt; [apply (i_Fill force)|].
+  intros ok s1 n1 R1 T1. cbn beta. destruct ok; cbn [negb].
+  - apply x_get. apply x_ret. rewrite app_nil_r. split; [exact R1|split; [exact T1|]]. intros m [= <-]. reflexivity.
+  - apply x_ret. rewrite app_nil_r. split; [exact R1|split; [exact T1|discriminate]].
 Qed.
 
-Lemma k_sendPrepareRequest force : kI (sendPrepareRequest cfg force).
+Lemma b_sendPrepareRequest force : kB (sendPrepareRequest cfg force).
 Proof.
-  intros s0 H0. unfold sendPrepareRequest.
-  eapply x_call; [apply (t_makePrepareRequest force s0 H0)|]. intros m1 s1 n1 (I1 & T1 & Ty1). cbn beta.
-  eapply x_call with (Qx := fun r s tr => Inv s /\ trG G tr /\ forall m, r = Some m -> p_type m = PrepareRequestT).
+  intros s0 H0 U0. unfold sendPrepareRequest.
+  eapply x_call; [apply (t_makePrepareRequest force s0)|]. intros m1 s1 n1 (R1 & T1 & Ty1). cbn beta.
+  pose proof (RI_Inv _ _ R1 H0) as I1. pose proof (RI_U _ _ R1 U0) as U1.
+  eapply x_call with (Qx := fun r s tr => Inv s /\ U s /\ trG G tr /\ forall m, r = Some m -> p_type m = PrepareRequestT).
   { destruct m1 as [x|].
-    - apply x_ret. split; [exact I1|split; [apply trG_nil|]]. intros m [= <-]. apply Ty1. reflexivity.
-    - eapply x_kp; [apply (k_of_i _ i_subscribe)|exact I1|]. intros [] s2 n2 I2 T2. cbn beta.
-      eapply x_conseq; [apply (t_makePrepareRequest force s2 I2)|]. cbn. intros r s n (Ia & Ta & Tya). split; [exact Ia|split; [apply trG_app; auto|exact Tya]]. }
-  intros m2 s2 n2 (I2 & T2 & Ty2). cbn beta. destruct m2 as [msg|].
+    - apply x_ret. split; [exact I1|split; [exact U1|split; [apply trG_nil|]]]. intros m [= <-]. apply Ty1. reflexivity.
+    - istep i_subscribe.
+      eapply x_conseq; [apply (t_makePrepareRequest force s)|]. cbn. intros r0 s2 n2 (Ra & Ta & Tya).
+      split; [exact (RI_Inv _ _ Ra H)|split; [exact (RI_U _ _ Ra H1)|split; [trs|exact Tya]]]. }
+  intros m2 s2 n2 (I2 & U2 & T2 & Ty2). cbn beta. destruct m2 as [msg|].
   - specialize (Ty2 msg eq_refl).
-    eapply x_kp; [apply (k_of_i _ i_unsubscribe)|exact I2|]. intros [] s3 n3 I3 T3. cbn beta.
+    istep i_unsubscribe.
     apply x_get. apply x_tset. intros l Hi Hl. apply x_modify.
-    set (s4 := s3 <| PreparationPayloads := l |>).
-    assert (I4 : Inv s4). { destruct I3 as (J1 & J2 & J3 & J4 & J5). unfold Inv, s4. cbn. repeat split; auto.
+    lazymatch goal with |- hx ?st _ _ => set (s4 := st) end.
+    assert (I4 : Inv s4). { match goal with H : Inv ?s |- _ => match type of Hl with context[s] => destruct H as (J1 & J2 & J3 & J4 & J5) end end.
+      unfold Inv, s4. cbn. repeat split; auto.
       eapply tall_set; [exact J1| |exact Hl]. intros p [= <-]. left. exact Ty2. }
+    assert (U4 : U s4) by (unfold U, s4 in *; cbn; assumption).
     unfold broadcast at 1. apply x_assoc. apply x_get. unfold ask_unit at 1. apply x_ask. intros [] c Hc.
     apply sel_Broadcast in Hc. subst c.
-    assert (Gb : G s4 (CBroadcast (msg <| p_idx := u16 (MyIndex s4) |>))). { unfold G. rewrite p_type_set_idx, Ty2. exact Logic.I. }
-    eapply x_kp; [apply (k_updateExistingPayloads msg)|exact I4|]. intros [] s5 n5 I5 T5. cbn beta.
+    assert (Gb : G s4 (CBroadcast (msg <| p_idx := u16 (MyIndex s4) |>))).
+    { apply G_broadcast_ungated; [rewrite Ty2; repeat split; discriminate|exact U4]. }
+    istep (i_updateExistingPayloads msg).
     unfold ask_now at 1. apply x_ask. intros t c Hc. apply x_modify. apply x_get.
-    set (s6 := s5 <| prepareSentTime := Some t |>).
-    assert (I6 : Inv s6) by (unfold Inv, s6 in *; cbn; exact I5).
-    cbv zeta.
-    eapply x_kp; [apply (k_of_f _ (f_changeTimer _))|exact I6|]. intros [] s7 n7 I7 T7. cbn beta.
-    eapply x_kp_last; [apply k_checkPrepare|exact I7|]. intros [] s8 n8 I8 T8.
+    lazymatch goal with |- hx ?st _ _ => set (s6 := st) end.
+    assert (I6 : Inv s6) by (unfold Inv, s6 in *; cbn; assumption).
+    assert (U6 : U s6) by (unfold U, s6 in *; cbn; assumption).
+    cbv zeta. istep (toI _ (f_changeTimer (if ViewNumber s6 =? 0 then wrap64 (shl64 (timePerBlock s6) (u8 (ViewNumber s6 + 1)) - timePerBlock s6) else shl64 (timePerBlock s6) (u8 (ViewNumber s6 + 1))))).
+    eapply x_conseq; [apply b_checkPrepare; assumption|]. cbn. intros [] s8 n8 (I8 & T8).
     split; [exact I8|].
-    repeat (apply trG_app; auto). apply trG_cons; [exact Gb|]. apply trG_app; [exact T5|]. apply trG_cons; [destruct c; try discriminate Hc; exact Logic.I|].
+    repeat (apply trG_app; auto). apply trG_cons; [exact Gb|]. apply trG_app; [assumption|]. apply trG_cons; [destruct c; try discriminate Hc; exact Logic.I|].
     apply trG_app; auto.
-  - apply x_get. eapply x_kp_last; [apply (k_of_f _ (f_changeTimer _))|exact I2|]. intros [] s3 n3 I3 T3.
-    split; [exact I3|]. repeat (apply trG_app; auto).
+  - apply x_get. ilast (toI _ (f_changeTimer (wrap64 (maxTimePerBlock s2 - timePerBlock s2)))).
 Qed.
-Hint Resolve k_sendPrepareRequest : kpdb.
 
-Definition ungated (t : mtype) : Prop := t <> PrepareResponseT /\ t <> CommitT /\ t <> PreCommitT.
-Lemma k_broadcast m : ungated (p_type m) -> kI (broadcast m).
-Proof.
-  intros (U1 & U2 & U3). unfold broadcast. apply kp_get_bind_u. intros s. unfold ask_unit. apply kp_ask. intros s1 c [] _ Hc.
-  apply sel_Broadcast in Hc. subst c. unfold G. rewrite p_type_set_idx. destruct (p_type m); try exact Logic.I; congruence.
-Qed.
 Lemma t_makeChangeView ts r s0 : Inv s0 ->
-  hx s0 (makeChangeView ts r) (fun m s tr => Inv s /\ trG G tr /\ p_type m = ChangeViewT).
+  hx s0 (makeChangeView ts r) (fun m s tr => RI s0 s /\ Inv s /\ trG G tr /\ p_type m = ChangeViewT).
 Proof.
-  intros H0. unfold makeChangeView. xs. split; [|split; [apply trG_nil|reflexivity]].
-  destruct H0 as (J1 & J2 & J3 & J4 & J5). unfold Inv. cbn. repeat split; auto.
-  eapply tall_set; [exact J4| |exact Hl]. intros p [= <-]. reflexivity.
+  intros H0. unfold makeChangeView. xs.
+  assert (I1 : Inv (s0 <| ChangeViewPayloads := l |>)).
+  { destruct H0 as (J1 & J2 & J3 & J4 & J5). unfold Inv. cbn. repeat split; auto.
+    eapply tall_set; [exact J4| |exact Hl]. intros p [= <-]. reflexivity. }
+  split; [split; [intros _; exact I1|reflexivity]|split; [exact I1|split; [apply trG_nil|reflexivity]]].
 Qed.
 
 Section Rec.
 Variable ic : Z -> Z -> M unit.
 Hypothesis Hic : forall v ts, kI (ic v ts).
 
-Lemma k_checkChangeView view : kI (checkChangeView ic view).
+Ltac cur_inv := match goal with |- hx ?s _ _ => match goal with H : Inv s |- _ => H end end.
+
+Lemma b_checkChangeView view : kB (checkChangeView ic view).
 Proof.
-  intros s0 H0. unfold checkChangeView. apply x_get.
-  destruct (ViewNumber s0 >=? view); [apply x_ret; split; [exact H0|apply trG_nil]|]. cbv zeta.
-  match goal with |- context[if ?b then _ else _] => destruct b end; [apply x_ret; split; [exact H0|apply trG_nil]|].
-  eapply x_kp; [apply (k_of_f _ f_WatchOnly)|exact H0|]. intros wo s1 n1 I1 T1. cbn beta.
+  intros s0 H0 U0. unfold checkChangeView. apply x_get.
+  destruct (ViewNumber s0 >=? view); [kret|]. cbv zeta.
+  match goal with |- context[if ?b then _ else _] => destruct b end; [kret|].
+  istep (toI _ f_WatchOnly).
   eapply x_call with (Qx := fun _ s tr => Inv s /\ trG G tr).
-  { destruct wo; [apply x_ret; split; [exact I1|apply trG_nil]|]. apply x_get. apply x_tget. intros own Hi Hown.
-    destruct own as [m|]; [|apply x_ret; split; [exact I1|apply trG_nil]].
-    destruct (cv_newview m <? view); [|apply x_ret; split; [exact I1|apply trG_nil]].
+  { destruct r; [kret|]. apply x_get. apply x_tget. intros own Hi Hown.
+    destruct own as [m|]; [|kret].
+    destruct (cv_newview m <? view); [|kret].
     unfold ask_now. apply x_ask. intros t c Hc.
-    eapply x_call; [apply (t_makeChangeView (u64 t) CVChangeAgreement s1 I1)|]. intros msg s2 n2 (I2 & T2 & Ty2). cbn beta.
-    eapply x_kp_last; [apply (k_broadcast msg)|exact I2|].
-    - rewrite Ty2. repeat split; discriminate.
-    - intros [] s3 n3 I3 T3. split; [exact I3|]. apply trG_cons; [destruct c; try discriminate Hc; exact Logic.I|]. apply trG_app; auto. }
+    eapply x_call; [apply (t_makeChangeView (u64 t) CVChangeAgreement); assumption|]. intros msg s2 n2 (R2 & I2 & T2 & Ty2). cbn beta.
+    unfold broadcast. apply x_get. unfold ask_unit. apply x_ask_last. intros [] c2 Hc2. apply sel_Broadcast in Hc2. subst c2.
+    split; [exact I2|]. apply trG_cons; [gk|]. apply trG_app; [exact T2|]. apply trG_cons; [|apply trG_nil].
+    apply G_broadcast_ungated; [rewrite Ty2; repeat split; discriminate|]. eapply RI_U; [exact R2|assumption]. }
   intros [] s2 n2 (I2 & T2). cbn beta. apply x_get.
   eapply x_kp_last; [apply (Hic view (lastBlockTimestamp s2))|exact I2|]. intros [] s3 n3 I3 T3.
-  split; [exact I3|]. repeat (apply trG_app; auto).
+  split; [exact I3|trs].
 Qed.
 
-(* small helpers for the remaining manual proofs *)
-Ltac gk :=
-  idtac; match goal with
-  | |- G _ ?c =>
-      match goal with
-      | H : _ = Some ?a |- _ =>
-          match type of H with context[c] =>
-            first [ try (destruct a); apply sel_Broadcast in H; subst c; unfold mk_payload; cbn; exact Logic.I
-                  | destruct c; try discriminate H; exact Logic.I ] end
-      end
-  end.
-Ltac trs := rewrite ?app_nil_r; repeat first [ assumption | apply trG_nil | apply trG_app | apply trG_cons; [solve [gk]|] ].
-Ltac kstep L := eapply x_kp; [apply L | assumption | let a := fresh "r" in let s := fresh "s" in let n := fresh "n" in let HI := fresh "HI" in let HT := fresh "HT" in intros a s n HI HT; cbn beta].
-Ltac klast L := eapply x_kp_last; [apply L | assumption | let a := fresh "r" in let s := fresh "s" in let n := fresh "n" in let HI := fresh "HI" in let HT := fresh "HT" in intros a s n HI HT; split; [assumption|trs]].
-Ltac kret := apply x_ret; split; [assumption|trs].
-(* like kstep, then case analysis on the (boolean / option) result *)
-Ltac kstepd L := eapply x_kp; [apply L | assumption | let a := fresh "r" in let s := fresh "s" in let n := fresh "n" in let HI := fresh "HI" in let HT := fresh "HT" in intros a s n HI HT; cbn beta; destruct a].
-
-Lemma k_sendChangeView reason : kI (sendChangeView ic reason).
+Lemma b_sendChangeView reason : kB (sendChangeView ic reason).
 Proof.
-  intros s0 H0. unfold sendChangeView. kstep (k_of_f _ f_WatchOnly). destruct r; [kret|].
-  apply x_get. cbv zeta. kstep (k_of_f _ (f_changeTimer (shl64 (timePerBlock s) (u8 (u8 (ViewNumber s + 1) + 1))))).
+  intros s0 H0 U0. unfold sendChangeView. istepd (toI _ f_WatchOnly); [kret|].
+  apply x_get. cbv zeta. istep (toI _ (f_changeTimer (shl64 (timePerBlock s) (u8 (u8 (ViewNumber s + 1) + 1))))).
   match goal with |- context[if ?b then _ else _] => destruct b end.
-  - klast (k_of_i _ i_sendRecoveryRequest).
+  - eapply x_conseq; [apply b_sendRecoveryRequest; assumption|]. cbn. intros [] s2 n2 (I2 & T2). split; [exact I2|trs].
   - unfold ask_now. apply x_ask. intros t c Hc.
-    eapply x_call; [apply (t_makeChangeView _ _ s1 HI0)|]. intros msg s2 n2 (I2 & T2 & Ty2). cbn beta.
-    kstep (k_of_f _ f_StopTxFlow). eapply x_kp; [apply (k_broadcast msg)|assumption|].
-    { rewrite Ty2. repeat split; discriminate. }
-    intros [] s4 n4 I4 T4. cbn beta. klast (k_checkChangeView (u8 (ViewNumber s + 1))).
+    eapply x_call; [apply t_makeChangeView; assumption|]. intros msg s2 n2 (R2 & I2 & T2 & Ty2). cbn beta.
+    assert (U2 : U s2) by (eapply RI_U; [exact R2|assumption]).
+    istep (toI _ f_StopTxFlow).
+    unfold broadcast at 1. apply x_assoc. apply x_get. unfold ask_unit at 1. apply x_ask. intros [] c2 Hc2. apply sel_Broadcast in Hc2. subst c2.
+    eapply x_conseq; [apply b_checkChangeView; assumption|]. cbn. intros [] s4 n4 (I4 & T4). split; [exact I4|].
+    rewrite ?app_nil_r.
+    repeat first [ assumption | apply trG_nil | apply trG_app
+                 | apply trG_cons; [first [solve [gk] | apply G_broadcast_ungated; [rewrite Ty2; repeat split; discriminate|assumption]]|] ].
 Qed.
 
-Lemma t_createAndCheckBlock s0 : Inv s0 ->
+Lemma t_createAndCheckBlock s0 : Inv s0 -> U s0 ->
   hx s0 (createAndCheckBlock cfg ic) (fun ok s tr => Inv s /\ trG G tr /\ (ok = true -> RF s0 s)).
 Proof.
-  intros H0. unfold createAndCheckBlock. apply x_get.
+  intros H0 U0. unfold createAndCheckBlock. apply x_get.
   eapply x_call with (Qx := fun _ s tr => RF s0 s /\ trG G tr).
   { destruct (amev_on cfg s0).
     - eapply x_rt; [apply f_CreatePreBlock|]. intros b s1 n1 HR HT. cbn beta. apply x_ask_last. intros ok c Hc. split; [exact HR|]. trs.
     - eapply x_rt; [apply f_CreateBlock|]. intros b s1 n1 HR HT. cbn beta. apply x_ask_last. intros ok c Hc. split; [exact HR|]. trs. }
-  intros ok s1 n1 (HR & HT). cbn beta. pose proof (RF_RI _ _ HR H0) as I1. destruct ok.
+  intros ok s1 n1 (HR & HT). cbn beta. pose proof (RI_Inv _ _ (RF_RI _ _ HR) H0) as I1. pose proof (RF_U _ _ HR U0) as U1. destruct ok.
   - apply x_ret. rewrite app_nil_r. split; [exact I1|split; [exact HT|auto]].
-  - kstep (k_sendChangeView CVTxInvalid). apply x_ret. split; [assumption|split; [trs|discriminate]].
+  - eapply x_call; [apply (b_sendChangeView CVTxInvalid s1 I1 U1)|]. intros [] s2 n2 (I2 & T2). cbn beta.
+    apply x_ret. split; [exact I2|split; [trs|discriminate]].
 Qed.
 
 (* hasAllTransactions is kept by everything between the block check and the response *)
-Definition keepsAll {A} (x : M A) : Prop := forall s0, Inv s0 -> hx s0 x (fun _ s tr => Inv s /\ trG G tr /\ hasAllTransactions s = hasAllTransactions s0).
+Definition keepsAll {A} (x : M A) : Prop := forall s0, hx s0 x (fun _ s tr => RI s0 s /\ trG G tr /\ hasAllTransactions s = hasAllTransactions s0).
 Lemma hasAll_RF a b : RF a b -> hasAllTransactions b = hasAllTransactions a.
 Proof. intros (_ & _ & _ & _ & _ & E6 & E7 & _). unfold hasAllTransactions. rewrite E6, E7. reflexivity. Qed.
 Lemma keepsAll_f {A} (x : M A) : rtF x -> keepsAll x.
-Proof. intros H s0 H0. eapply x_conseq; [apply H|]. cbn. intros a s n (HR & HT). split; [exact (RF_RI _ _ HR H0)|split; [exact HT|apply hasAll_RF, HR]]. Qed.
+Proof. intros H s0. eapply x_conseq; [apply H|]. cbn. intros a s n (HR & HT). split; [exact (RF_RI _ _ HR)|split; [exact HT|apply hasAll_RF, HR]]. Qed.
 Lemma keepsAll_verifyPreCommits : keepsAll verifyPreCommitPayloadsAgainstPreBlock.
 Proof.
-  intros s0 H0. unfold verifyPreCommitPayloadsAgainstPreBlock. apply x_get.
-  destruct (negb (hasAllTransactions s0)); [apply x_ret; split; [exact H0|split; [apply trG_nil|reflexivity]]|].
-  eapply x_conseq; [apply (x_forM (fun s n => Inv s /\ trG G n /\ hasAllTransactions s = hasAllTransactions s0)) with (n := [])|].
-  - intros i s n _ (Is & Tn & Hs). xs.
-    + eapply x_rt; [apply f_CreatePreBlock|]. intros hb s1 n1 HR HT. cbn beta. pose proof (RF_RI _ _ HR Is) as I1. pose proof (hasAll_RF _ _ HR) as H1. xs.
-      * rewrite app_nil_r. split; [exact I1|split; [trs|congruence]].
+  intros s0. unfold verifyPreCommitPayloadsAgainstPreBlock. apply x_get.
+  destruct (negb (hasAllTransactions s0)); [apply x_ret; split; [apply (R_refl RI)|split; [apply trG_nil|reflexivity]]|].
+  eapply x_conseq; [apply (x_forM (fun s n => RI s0 s /\ trG G n /\ hasAllTransactions s = hasAllTransactions s0)) with (n := [])|].
+  - intros i s n _ (Rs & Tn & Hs). xs.
+    + eapply x_rt; [apply f_CreatePreBlock|]. intros hb s1 n1 HR HT. cbn beta. pose proof (R_trans RI _ _ _ Rs (RF_RI _ _ HR)) as R1. pose proof (hasAll_RF _ _ HR) as H1. xs.
+      * rewrite app_nil_r. split; [exact R1|split; [trs|congruence]].
       * rewrite app_nil_r. split; [|split; [trs|unfold hasAllTransactions in *; cbn; congruence]].
-        destruct I1 as (J1 & J2 & J3 & J4 & J5). unfold Inv. cbn. repeat split; auto. eapply tall_set; [exact J2| |eassumption]. intros ? ?; discriminate.
-      * rewrite app_nil_r. split; [exact I1|split; [trs|congruence]].
+        eapply (R_trans RI); [exact R1|]. clear_fin (R_refl RI s1).
+      * rewrite app_nil_r. split; [exact R1|split; [trs|congruence]].
     + rewrite app_nil_r. auto.
     + rewrite app_nil_r. auto.
-  - split; [exact H0|split; [apply trG_nil|reflexivity]].
+  - split; [apply (R_refl RI)|split; [apply trG_nil|reflexivity]].
   - cbn. intros _ s n H. exact H.
 Qed.
 
-Lemma k_addTransaction t : kI (addTransaction cfg ic t).
+(* call a keepsAll helper: carries Inv, U and the hasAllTransactions value *)
+Ltac astep L :=
+  lazymatch goal with |- hx ?s0 _ _ =>
+    eapply x_call; [apply (L s0)|];
+    let a := fresh "r" in let s := fresh "s" in let n := fresh "n" in let HR := fresh "HR" in let HT := fresh "HT" in let HA := fresh "HA" in
+    intros a s n (HR & HT & HA); cbn beta;
+    try (match goal with H : Inv s0 |- _ => pose proof (RI_Inv _ _ HR H) end);
+    try (match goal with H : U s0 |- _ => pose proof (RI_U _ _ HR H) end)
+  end.
+
+Ltac astepd L :=
+  lazymatch goal with |- hx ?s0 _ _ =>
+    eapply x_call; [apply (L s0)|];
+    let a := fresh "r" in let s := fresh "s" in let n := fresh "n" in let HR := fresh "HR" in let HT := fresh "HT" in let HA := fresh "HA" in
+    intros a s n (HR & HT & HA); cbn beta;
+    try (match goal with H : Inv s0 |- _ => pose proof (RI_Inv _ _ HR H) end);
+    try (match goal with H : U s0 |- _ => pose proof (RI_U _ _ HR H) end);
+    destruct a
+  end.
+
+Lemma b_addTransaction t : kB (addTransaction cfg ic t).
 Proof.
-  intros s0 H0. unfold addTransaction. apply x_modify.
-  set (s1 := s0 <| Transactions := tx_put (Transactions s0) (tx_hash t) t |>).
+  intros s0 H0 U0. unfold addTransaction. apply x_modify.
+  lazymatch goal with |- hx ?st _ _ => set (s1 := st) end.
   assert (I1 : Inv s1) by (unfold Inv, s1 in *; cbn; exact H0).
+  assert (U1 : U s1) by (unfold U, s1 in *; cbn; exact U0).
   apply x_get. destruct (negb (hasAllTransactions s1)) eqn:Ea; [kret|]. apply negb_false_iff in Ea.
   destruct (IsPrimary s1); [kret|].
-  eapply x_call; [apply (keepsAll_f _ f_WatchOnly s1 I1)|]. intros wo s n (HI & HT & A1). cbn beta. destruct wo; [kret|].
-  eapply x_call; [apply (t_createAndCheckBlock s HI)|]. intros ok s2 n2 (I2 & T2 & F2). cbn beta.
+  astepd (keepsAll_f _ f_WatchOnly); [kret|].
+  eapply x_call; [apply t_createAndCheckBlock; assumption|]. intros ok s2 n2 (I2 & T2 & F2). cbn beta.
   destruct ok; cbn [negb]; [|kret]. specialize (F2 eq_refl).
-  eapply x_call; [apply (keepsAll_verifyPreCommits s2 I2)|]. intros [] s3 n3 (I3 & T3 & A3). cbn beta.
-  eapply x_call; [apply (keepsAll_f _ (f_extendTimer 2) s3 I3)|]. intros [] s4 n4 (I4 & T4 & A4). cbn beta.
-  eapply x_call; [apply (k_sendPrepareResponse_pre s4 I4)|].
-  { rewrite A4, A3, (hasAll_RF _ _ F2), A1. exact Ea. }
-  intros [] s5 n5 (I5 & T5). cbn beta. klast k_checkPrepare.
+  assert (U2 : U s2) by (eapply RF_U; [exact F2|assumption]).
+  astep keepsAll_verifyPreCommits. astep (keepsAll_f _ (f_extendTimer 2)).
+  eapply x_call; [apply g_sendPrepareResponse; [|assumption]|].
+  { rewrite HA1, HA0, (hasAll_RF _ _ F2), HA. exact Ea. }
+  intros [] s5 n5 (R5 & T5). cbn beta.
+  eapply x_conseq; [apply b_checkPrepare; [eapply RI_Inv; [exact R5|assumption]|eapply RI_U; [exact R5|assumption]]|].
+  cbn. intros [] s6 n6 (I6 & T6). split; [exact I6|trs].
 Qed.
 
-Lemma k_onPrepareRequest msg : kI (onPrepareRequest cfg ic msg).
+Lemma b_onPrepareRequest msg : kB (onPrepareRequest cfg ic msg).
 Proof.
-  intros s0 H0. unfold onPrepareRequest. kstepd (k_of_f _ f_RequestSentOrReceived).
-  { kstep (k_of_f _ f_ViewChanging). kret. }
+  intros s0 H0 U0. unfold onPrepareRequest. istepd (toI _ f_RequestSentOrReceived).
+  { istep (toI _ f_ViewChanging). kret. }
   apply x_get. destruct (negb (ViewNumber s =? p_view msg)); [kret|].
-  kstep (k_of_i _ (i_GetPrimaryIndex s (ViewNumber s))). destruct (negb (p_idx msg =? r)); [kret|].
+  istep (i_GetPrimaryIndex s (ViewNumber s)). destruct (negb (p_idx msg =? r)); [kret|].
   apply x_ask. intros ok c Hc. destruct ok; cbn [negb].
-  2:{ eapply x_kp_last; [apply (k_sendChangeView CVBlockRejectedByPolicy)|assumption|]. intros [] s2 n2 I2 T2. split; [assumption|trs]. }
-  kstep (k_of_f _ (f_extendTimer 2)).
+  2:{ eapply x_conseq; [apply (b_sendChangeView CVBlockRejectedByPolicy); assumption|]. cbn. intros [] s2 n2 (I2 & T2). split; [exact I2|trs]. }
+  istep (toI _ (f_extendTimer 2)).
   destruct (p_body msg) as [b|ps] eqn:Eb; [|apply x_panic].
   destruct b; try apply x_panic.
   assert (Ty : p_type msg = PrepareRequestT) by (unfold p_type; rewrite Eb; reflexivity).
   apply x_modify.
-  set (s3 := s2 <| Timestamp := ts |> <| Nonce := nonce |> <| TransactionHashes := hashes |>).
+  lazymatch goal with |- hx ?st _ _ => set (s3 := st) end.
   assert (I3 : Inv s3) by (unfold Inv, s3 in *; cbn; assumption).
-  kstep (k_of_i _ i_processMissingTx). kstep (k_updateExistingPayloads msg).
+  assert (U3 : U s3) by (unfold U, s3 in *; cbn; assumption).
+  istep i_processMissingTx. istep (i_updateExistingPayloads msg).
   apply x_get. apply x_tset. intros l Hi Hl. apply x_modify.
-  set (s6 := s5 <| PreparationPayloads := l |>).
-  assert (I6 : Inv s6). { destruct HI3 as (J1 & J2 & J3 & J4 & J5). unfold Inv, s6. cbn. repeat split; auto.
+  lazymatch goal with |- hx ?st _ _ => set (s6 := st) end.
+  assert (I6 : Inv s6). { match goal with H : Inv ?s |- _ => match type of Hl with context[s] => destruct H as (J1 & J2 & J3 & J4 & J5) end end.
+    unfold Inv, s6. cbn. repeat split; auto.
     eapply tall_set; [exact J1| |exact Hl]. intros p [= <-]. left. exact Ty. }
+  assert (U6 : U s6) by (unfold U, s6 in *; cbn; assumption).
   apply x_get. destruct (negb (hasAllTransactions s6)) eqn:Ea; [kret|]. apply negb_false_iff in Ea.
-  eapply x_call; [apply (t_createAndCheckBlock s6 I6)|]. intros ok s7 n7 (I7 & T7 & F7). cbn beta.
+  eapply x_call; [apply t_createAndCheckBlock; assumption|]. intros ok s7 n7 (I7 & T7 & F7). cbn beta.
   destruct ok; cbn [negb]; [|kret]. specialize (F7 eq_refl).
-  eapply x_call; [apply (keepsAll_f _ f_WatchOnly s7 I7)|]. intros wo s8 n8 (I8 & T8 & A8). cbn beta. destruct wo; [kret|].
-  eapply x_call; [apply (k_sendPrepareResponse_pre s8 I8)|].
-  { rewrite A8, (hasAll_RF _ _ F7). exact Ea. }
-  intros [] s9 n9 (I9 & T9). cbn beta. klast k_checkPrepare.
+  assert (U7 : U s7) by (eapply RF_U; [exact F7|assumption]).
+  astepd (keepsAll_f _ f_WatchOnly); [kret|].
+  eapply x_call; [apply g_sendPrepareResponse; [|assumption]|].
+  { rewrite HA, (hasAll_RF _ _ F7). exact Ea. }
+  intros [] s9 n9 (R9 & T9). cbn beta.
+  eapply x_conseq; [apply b_checkPrepare; [eapply RI_Inv; [exact R9|assumption]|eapply RI_U; [exact R9|assumption]]|].
+  cbn. intros [] s10 n10 (I10 & T10). split; [exact I10|trs].
 Qed.
 
 Lemma k_onRecoveryRequest msg : kI (onRecoveryRequest cfg msg).
 Proof. unfold onRecoveryRequest. kp_go leafK. Qed.
 
-Lemma k_onPrepareResponse msg : p_type msg = PrepareResponseT -> kI (onPrepareResponse cfg msg).
+Ltac set_cur x := lazymatch goal with |- hx ?st _ _ => set (x := st) end.
+Ltac inv_of Hl := match goal with H : Inv ?s |- _ => match type of Hl with context[s] => H end end.
+
+Lemma b_onPrepareResponse msg : p_type msg = PrepareResponseT -> kB (onPrepareResponse cfg msg).
 Proof.
-  intros Ty s0 H0. unfold onPrepareResponse. apply x_get. destruct (negb (ViewNumber s0 =? p_view msg)); [kret|].
-  kstep (k_of_i _ (i_GetPrimaryIndex s0 (ViewNumber s0))). destruct (p_idx msg =? r); [kret|].
+  intros Ty s0 H0 U0. unfold onPrepareResponse. apply x_get. destruct (negb (ViewNumber s0 =? p_view msg)); [kret|].
+  istep (i_GetPrimaryIndex s0 (ViewNumber s0)). destruct (p_idx msg =? r); [kret|].
   apply x_tget. intros m Hi Hm.
-  eapply x_call with (Qx := fun _ s tr => Inv s /\ trG G tr).
-  { destruct (isSome m); [kret|]. kstep (k_of_f _ f_ViewChanging). apply x_get. kret. }
-  intros skip s1 n1 (I1 & T1). cbn beta. destruct skip. { kstep (k_of_f _ f_ViewChanging). kret. }
+  eapply x_call with (Qx := fun _ s1 tr => Inv s1 /\ U s1 /\ trG G tr).
+  { destruct (isSome m); [apply x_ret; split; [assumption|split; [assumption|trs]]|]. istep (toI _ f_ViewChanging). apply x_get.
+    apply x_ret; split; [assumption|split; [assumption|trs]]. }
+  intros skip s1 n1 (I1 & U1 & T1). cbn beta. destruct skip. { istep (toI _ f_ViewChanging). kret. }
   apply x_ask. intros ok c Hc. destruct ok; cbn [negb]; [|kret].
-  apply x_get. apply x_tset. intros l Hil Hl. apply x_modify.
-  set (s2 := s1 <| PreparationPayloads := l |>).
+  apply x_get. apply x_tset. intros l Hil Hl. apply x_modify. set_cur s2.
   assert (I2 : Inv s2). { destruct I1 as (J1 & J2 & J3 & J4 & J5). unfold Inv, s2. cbn. repeat split; auto.
     eapply tall_set; [exact J1| |exact Hl]. intros p [= <-]. right. exact Ty. }
+  assert (U2 : U s2) by (unfold U, s2 in *; cbn; assumption).
   apply x_get. apply x_tget. intros req Hir Hreq.
-  eapply x_call with (Qx := fun _ s tr => Inv s /\ trG G tr).
-  { destruct req as [rq|]; [|kret]. destruct (p_body rq) as [b|]. 2: kret. destruct b; try kret.
-    destruct (negb (hash_eqb (resp_prephash msg) (payload_hash rq))). 2: kret.
-    apply x_tset. intros l2 Hi2 Hl2. apply x_modify. apply x_ret. split; [|trs].
+  eapply x_call with (Qx := fun _ s tr => Inv s /\ U s /\ trG G tr).
+  { destruct req as [rq|]; [|apply x_ret; split; [assumption|split; [assumption|trs]]].
+    destruct (p_body rq) as [b|]. 2: (apply x_ret; split; [assumption|split; [assumption|trs]]).
+    destruct b; try (apply x_ret; split; [assumption|split; [assumption|trs]]).
+    destruct (negb (hash_eqb (resp_prephash msg) (payload_hash rq))). 2: (apply x_ret; split; [assumption|split; [assumption|trs]]).
+    apply x_tset. intros l2 Hi2 Hl2. apply x_modify. apply x_ret. split; [|split; [unfold U in *; cbn; assumption|trs]].
     destruct I2 as (J1 & J2 & J3 & J4 & J5). unfold Inv. cbn. repeat split; auto. eapply tall_set; [exact J1| |exact Hl2]. intros ? ?; discriminate. }
-  intros mismatch s3 n3 (I3 & T3). cbn beta. destruct mismatch; [kret|].
+  intros mismatch s3 n3 (I3 & U3 & T3). cbn beta. destruct mismatch; [kret|].
   apply x_get.
-  eapply x_call with (Qx := fun _ s tr => Inv s /\ trG G tr).
-  { destruct (IsPrimary s3 && isSome (prepareSentTime s3) && negb (recovering s3)). 2: kret.
-    unfold ask_now. apply x_ask. intros t c2 Hc2. destruct (prepareSentTime s3). 2: kret. klast (k_of_i _ (i_rtt (sat64 (t - z)))). }
-  intros [] s4 n4 (I4 & T4). cbn beta.
-  kstep (k_of_f _ (f_extendTimer 2)). kstepd (k_of_f _ f_WatchOnly); [kret|].
-  kstepd (k_of_f _ f_CommitSent); [kret|]. apply x_get.
-  eapply x_call with (Qx := fun _ s tr => Inv s /\ trG G tr).
-  { destruct (amev_on cfg s7); [klast (k_of_f _ f_PreCommitSent)|kret]. }
-  intros ps s8 n8 (I8 & T8). cbn beta. destruct ps; [kret|].
-  kstepd (k_of_f _ f_RequestSentOrReceived); [klast k_checkPrepare|kret].
+  eapply x_call with (Qx := fun _ s tr => Inv s /\ U s /\ trG G tr).
+  { destruct (IsPrimary s3 && isSome (prepareSentTime s3) && negb (recovering s3)). 2: (apply x_ret; split; [assumption|split; [assumption|trs]]).
+    unfold ask_now. apply x_ask. intros t c2 Hc2. destruct (prepareSentTime s3). 2: (apply x_ret; split; [assumption|split; [assumption|trs]]).
+    eapply x_rt_last; [apply (i_rtt (sat64 (t - z)))|]. intros [] s4 n4 R4 T4.
+    split; [exact (RI_Inv _ _ R4 I3)|split; [exact (RI_U _ _ R4 U3)|trs]]. }
+  intros [] s4 n4 (I4 & U4 & T4). cbn beta.
+  istep (toI _ (f_extendTimer 2)). istepd (toI _ f_WatchOnly); [kret|].
+  istepd (toI _ f_CommitSent); [kret|]. apply x_get.
+  eapply x_call with (Qx := fun _ s tr => Inv s /\ U s /\ trG G tr).
+  { match goal with |- context[if ?b then _ else _] => destruct b end.
+    - eapply x_rt_last; [apply (toI _ f_PreCommitSent)|]. intros ps sa na Ra Ta.
+      split; [eapply RI_Inv; [exact Ra|assumption]|split; [eapply RI_U; [exact Ra|assumption]|trs]].
+    - apply x_ret; split; [assumption|split; [assumption|trs]]. }
+  intros ps s8 n8 (I8 & U8 & T8). cbn beta. destruct ps; [kret|].
+  istepd (toI _ f_RequestSentOrReceived); [|kret].
+  eapply x_conseq; [apply b_checkPrepare; assumption|]. cbn. intros [] sz nz (Iz & Tz). split; [exact Iz|trs].
 Qed.
 
 Lemma RI_amev s0 s1 : RF s0 s1 -> amev_on cfg s1 = amev_on cfg s0.
 Proof. intros (E1 & _). unfold amev_on. rewrite E1. reflexivity. Qed.
 
-Lemma k_onChangeView msg : p_type msg = ChangeViewT -> kI (onChangeView cfg ic msg).
+Lemma b_onChangeView msg : p_type msg = ChangeViewT -> kB (onChangeView cfg ic msg).
 Proof.
-  intros Ty s0 H0. unfold onChangeView. apply x_get. cbv zeta.
+  intros Ty s0 H0 U0. unfold onChangeView. apply x_get. cbv zeta.
   destruct (cv_newview msg <=? ViewNumber s0); [apply (k_onRecoveryRequest msg s0 H0)|].
-  kstepd (k_of_f _ f_CommitSent).
-  - apply x_ret_bind. cbn [orb]. klast (k_of_i _ i_sendRecoveryMessage).
-  - kstepd (k_of_f _ f_PreCommitSent); cbn [orb]; [klast (k_of_i _ i_sendRecoveryMessage)|].
+  istepd (toI _ f_CommitSent).
+  - apply x_ret_bind. cbn [orb]. ilast i_sendRecoveryMessage.
+  - istepd (toI _ f_PreCommitSent); cbn [orb]; [ilast i_sendRecoveryMessage|].
     apply x_get. apply x_tget. intros m Hi Hm.
     match goal with |- context[if ?b then _ else _] => destruct b end; [kret|].
-    apply x_tset. intros l Hil Hl. apply x_modify.
-    set (s2 := s1 <| ChangeViewPayloads := l |>).
-    assert (I2 : Inv s2). { destruct HI0 as (J1 & J2 & J3 & J4 & J5). unfold Inv, s2. cbn. repeat split; auto.
+    apply x_tset. intros l Hil Hl. apply x_modify. set_cur s2.
+    assert (I2 : Inv s2). { let H := inv_of Hl in destruct H as (J1 & J2 & J3 & J4 & J5). unfold Inv, s2. cbn. repeat split; auto.
       eapply tall_set; [exact J4| |exact Hl]. intros p [= <-]. exact Ty. }
-    klast (k_checkChangeView (cv_newview msg)).
+    assert (U2 : U s2) by (unfold U, s2 in *; cbn; assumption).
+    eapply x_conseq; [apply (b_checkChangeView (cv_newview msg)); assumption|]. cbn. intros [] s3 n3 (I3 & T3). split; [exact I3|trs].
 Qed.
 
-Lemma k_onCommit msg : p_type msg = CommitT -> kI (onCommit cfg msg).
+Lemma b_onCommit msg : p_type msg = CommitT -> kB (onCommit cfg msg).
 Proof.
-  intros Ty s0 H0. unfold onCommit. apply x_get. apply x_tget. intros ex Hi Hex. destruct (isSome ex); [kret|].
-  apply x_tset. intros l Hil Hl. apply x_modify.
-  set (s1 := s0 <| CommitPayloads := l |>).
+  intros Ty s0 H0 U0. unfold onCommit. apply x_get. apply x_tget. intros ex Hi Hex. destruct (isSome ex); [kret|].
+  apply x_tset. intros l Hil Hl. apply x_modify. set_cur s1.
   assert (I1 : Inv s1). { destruct H0 as (J1 & J2 & J3 & J4 & J5). unfold Inv, s1. cbn. repeat split; auto.
     eapply tall_set; [exact J3| |exact Hl]. intros p [= <-]. exact Ty. }
+  assert (U1 : U s1) by (unfold U, s1 in *; cbn; assumption).
   destruct (negb (ViewNumber s0 =? p_view msg)); [kret|].
   apply x_ask. intros ok c Hc. destruct ok; cbn [negb].
-  - kstep (k_of_f _ (f_extendTimer 4)). kstepd (k_of_f _ f_MakeHeader); [|kret].
+  - istep (toI _ (f_extendTimer 4)). istepd (toI _ f_MakeHeader); [|kret].
     apply x_get. apply x_tget. intros pub Hip Hpub.
-    destruct (block_verify pub b (commit_sig msg)); [klast (k_of_i _ i_checkCommit)|].
-    apply x_tset. intros l2 Hi2 Hl2. apply x_modify_last. split; [|trs].
-    destruct HI0 as (J1 & J2 & J3 & J4 & J5). unfold Inv. cbn. repeat split; auto. eapply tall_set; [exact J3| |exact Hl2]. intros ? ?; discriminate.
+    destruct (block_verify pub b (commit_sig msg)).
+    + eapply x_conseq; [apply b_checkCommit; assumption|]. cbn. intros [] s4 n4 (I4 & T4). split; [exact I4|trs].
+    + apply x_tset. intros l2 Hi2 Hl2. apply x_modify_last. split; [|trs].
+      let H := inv_of Hl2 in destruct H as (J1 & J2 & J3 & J4 & J5). unfold Inv. cbn. repeat split; auto. eapply tall_set; [exact J3| |exact Hl2]. intros ? ?; discriminate.
   - apply x_get. apply x_tset. intros l2 Hi2 Hl2. apply x_modify_last. split; [|trs].
     destruct I1 as (J1 & J2 & J3 & J4 & J5). unfold Inv. cbn. repeat split; auto. eapply tall_set; [exact J3| |exact Hl2]. intros ? ?; discriminate.
 Qed.
 
-Lemma k_onPreCommit msg s0 : p_type msg = PreCommitT -> Inv s0 -> amev_on cfg s0 = true ->
+Lemma b_onPreCommit msg s0 : p_type msg = PreCommitT -> Inv s0 -> U s0 -> amev_on cfg s0 = true ->
   hx s0 (onPreCommit cfg msg) (fun _ s tr => Inv s /\ trG G tr).
 Proof.
-  intros Ty H0 Ham. unfold onPreCommit. apply x_get. apply x_tget. intros ex Hi Hex. destruct (isSome ex); [kret|].
-  apply x_tset. intros l Hil Hl. apply x_modify.
-  set (s1 := s0 <| PreCommitPayloads := l |>).
+  intros Ty H0 U0 Ham. unfold onPreCommit. apply x_get. apply x_tget. intros ex Hi Hex. destruct (isSome ex); [kret|].
+  apply x_tset. intros l Hil Hl. apply x_modify. set_cur s1.
   assert (I1 : Inv s1). { destruct H0 as (J1 & J2 & J3 & J4 & J5). unfold Inv, s1. cbn. repeat split; auto.
     eapply tall_set; [exact J2| |exact Hl]. intros p [= <-]. exact Ty. }
+  assert (U1 : U s1) by (unfold U, s1 in *; cbn; assumption).
   assert (Ham1 : amev_on cfg s1 = true) by (unfold amev_on, s1 in *; cbn; exact Ham).
   destruct (negb (ViewNumber s0 =? p_view msg)); [kret|].
   apply x_ask. intros ok c Hc. destruct ok; cbn [negb].
   - eapply x_rt; [apply (f_extendTimer 4)|]. intros [] s2 n2 HR2 HT2. cbn beta.
-    pose proof (RF_RI _ _ HR2 I1) as I2. assert (Ham2 : amev_on cfg s2 = true) by (rewrite (RI_amev _ _ HR2); exact Ham1).
+    pose proof (RI_Inv _ _ (RF_RI _ _ HR2) I1) as I2. pose proof (RF_U _ _ HR2 U1) as U2.
+    assert (Ham2 : amev_on cfg s2 = true) by (rewrite (RI_amev _ _ HR2); exact Ham1).
     apply x_get. destruct (negb (hasAllTransactions s2)); [kret|].
     eapply x_rt; [apply f_CreatePreBlock|]. intros pb s3 n3 HR3 HT3. cbn beta.
-    pose proof (RF_RI _ _ HR3 I2) as I3. assert (Ham3 : amev_on cfg s3 = true) by (rewrite (RI_amev _ _ HR3); exact Ham2).
+    pose proof (RI_Inv _ _ (RF_RI _ _ HR3) I2) as I3. pose proof (RF_U _ _ HR3 U2) as U3.
+    assert (Ham3 : amev_on cfg s3 = true) by (rewrite (RI_amev _ _ HR3); exact Ham2).
     destruct pb as [b|]; [|kret]. apply x_get. apply x_tget. intros pub Hip Hpub.
     destruct (preblock_verify pub b (precommit_data msg)).
-    + eapply x_conseq; [apply (g_checkPreCommit s3 Ham3 I3)|]. cbn. intros [] s4 n4 (HI4 & HT4). split; [exact (HI4 I3)|trs].
+    + eapply x_conseq; [apply (g_checkPreCommit s3 Ham3 I3 U3)|]. cbn. intros [] s4 n4 (HI4 & HT4). split; [exact HI4|trs].
     + apply x_tset. intros l2 Hi2 Hl2. apply x_modify_last. split; [|trs].
       destruct I3 as (J1 & J2 & J3 & J4 & J5). unfold Inv. cbn. repeat split; auto. eapply tall_set; [exact J2| |exact Hl2]. intros ? ?; discriminate.
   - apply x_get. apply x_tset. intros l2 Hi2 Hl2. apply x_modify_last. split; [|trs].
@@ -830,37 +936,60 @@ Lemma k_cache_addMessage m : kI (cache_addMessage m).
 Proof. unfold cache_addMessage. kp_go leafK. Qed.
 Hint Resolve k_cache_addMessage k_onRecoveryRequest : kpdb.
 
-Lemma k_receive_common d msg : kI (d msg) -> kI (receive_common d msg).
-Proof. intros Hd. unfold receive_common. kp_go leafK. Qed.
+Definition mtype_eq_dec (a b : mtype) : {a = b} + {a <> b}.
+Proof. decide equality. Defined.
+Lemma mtype_eqb_eq a b : mtype_eqb a b = true <-> a = b.
+Proof. unfold mtype_eqb. rewrite Z.eqb_eq. split; [apply mtype_code_inj|intros ->; reflexivity]. Qed.
 
-Lemma k_dispatch0 msg : kI (dispatch0 cfg ic msg).
+(* OnReceive protects its dispatch: after a decision only recovery requests get through *)
+Definition dispatch_ok (d : payload -> M unit) : Prop :=
+  forall msg s0, Inv s0 -> (U s0 \/ p_type msg = RecoveryRequestT) -> hx s0 (d msg) (fun _ s tr => Inv s /\ trG G tr).
+Lemma k_receive_common d msg : dispatch_ok d -> kI (receive_common d msg).
 Proof.
-  unfold dispatch0. destruct (p_type msg) eqn:Ty.
-  - apply k_onChangeView; exact Ty.
-  - apply k_onPrepareRequest.
-  - apply k_onPrepareResponse; exact Ty.
-  - apply k_onCommit; exact Ty.
-  - apply kp_get_bind. intros s Hs. destruct (amev_on cfg s) eqn:Ea; [apply k_onPreCommit; auto|apply x_ret; split; [exact Hs|apply trG_nil]].
-  - apply k_onRecoveryRequest.
-  - apply kp_ret.
+  intros Hd s0 H0. unfold receive_common. apply x_get.
+  destruct (p_idx msg >=? N s0); [kret|]. destruct (p_height msg <? BlockIndex s0); [kret|].
+  match goal with |- context[if ?b then _ else _] => destruct b end; [apply (k_cache_addMessage msg s0 H0)|].
+  apply x_tget. intros hv Hi Hhv.
+  eapply x_call with (Qx := fun _ s tr => Inv s /\ trG G tr).
+  { match goal with |- context[if ?b then _ else _] => destruct b end; [|kret].
+    apply x_tset. intros l Hil Hl. apply x_modify_last. split; [unfold Inv in *; cbn; exact H0|trs]. }
+  intros [] s1 n1 (I1 & T1). cbn beta. apply x_get.
+  destruct (blockProcessed s1 && negb (mtype_eqb (p_type msg) RecoveryRequestT)) eqn:E; [kret|].
+  eapply x_conseq; [apply (Hd msg s1 I1)|].
+  - apply andb_false_iff in E. destruct E as [E|E]; [left; exact E|right]. apply negb_false_iff in E. apply mtype_eqb_eq. exact E.
+  - cbn. intros [] s2 n2 (I2 & T2). split; [exact I2|trs].
 Qed.
-Hint Resolve k_dispatch0 : kpdb.
+
+Lemma b_dispatch0 : dispatch_ok (dispatch0 cfg ic).
+Proof.
+  intros msg s0 H0 Hor. unfold dispatch0. destruct (p_type msg) eqn:Ty.
+  all: try (destruct Hor as [U0|E]; [|discriminate E]).
+  - apply b_onChangeView; auto.
+  - apply b_onPrepareRequest; auto.
+  - apply b_onPrepareResponse; auto.
+  - apply b_onCommit; auto.
+  - apply x_get. destruct (amev_on cfg s0) eqn:Ea; [apply b_onPreCommit; auto|kret].
+  - apply (k_onRecoveryRequest msg s0 H0).
+  - kret.
+Qed.
 
 Lemma k_ask_recv m : kI (ask_recv m).
 Proof. unfold ask_recv. kp_go leafK. Qed.
 Hint Resolve k_ask_recv : kpdb.
 Lemma k_nestedReceive0 m : kI (nestedReceive0 cfg ic m).
-Proof. unfold nestedReceive0. apply kp_bind; [apply k_ask_recv|intros _]. apply k_receive_common. apply k_dispatch0. Qed.
+Proof. unfold nestedReceive0. apply kp_bind; [apply k_ask_recv|intros _]. apply k_receive_common. apply b_dispatch0. Qed.
 Hint Resolve k_nestedReceive0 : kpdb.
 
 Lemma k_onRecoveryMessage msg : kI (onRecoveryMessage cfg ic msg).
 Proof. unfold onRecoveryMessage. destruct (p_body msg); [apply kp_panic|]. cbv zeta. kp_go leafK. Qed.
-Hint Resolve k_onRecoveryMessage : kpdb.
 
-Lemma k_dispatch msg : kI (dispatch cfg ic msg).
-Proof. unfold dispatch. destruct (p_type msg); auto with kpdb. Qed.
+Lemma b_dispatch : dispatch_ok (dispatch cfg ic).
+Proof.
+  intros msg s0 H0 Hor. unfold dispatch. destruct (p_type msg) eqn:Ty; try (apply b_dispatch0; [exact H0|rewrite Ty; exact Hor]).
+  apply (k_onRecoveryMessage msg s0 H0).
+Qed.
 Lemma k_OnReceive msg : kI (OnReceive cfg ic msg).
-Proof. unfold OnReceive. apply k_receive_common. apply k_dispatch. Qed.
+Proof. unfold OnReceive. apply k_receive_common. apply b_dispatch. Qed.
 Hint Resolve k_OnReceive : kpdb.
 
 Lemma k_replay_map n : forall entries, kI (replay_map cfg ic n entries).
@@ -869,33 +998,120 @@ Proof.
   apply kp_bind; [kp_go leafK|intros k]. destruct (assoc_get (e :: es) k); [|apply kp_ret].
   apply kp_bind; [apply k_OnReceive|intros _; apply IH].
 Qed.
-Hint Resolve k_replay_map : kpdb.
 End Rec.
 
 Lemma k_ic_body ic view ts : (forall v t, kI (ic v t)) -> kI (initializeConsensus_body cfg ic view ts).
 Proof. intros Hic. unfold initializeConsensus_body. kp_go leafK. all: apply k_replay_map; exact Hic. Qed.
-
 Lemma k_initializeConsensus fuel : forall view ts, kI (initializeConsensus cfg fuel view ts).
 Proof. induction fuel as [|f IH]; intros view ts; cbn [initializeConsensus]; [apply kp_oof|]. apply k_ic_body. exact IH. Qed.
+Lemma k_init view ts : kI (init cfg view ts). Proof. apply k_initializeConsensus. Qed.
 
 (* ---- API ---- *)
-Lemma k_init view ts : kI (init cfg view ts). Proof. apply k_initializeConsensus. Qed.
-Hint Resolve k_init k_sendPrepareRequest : kpdb.
+Ltac set_cur x := lazymatch goal with |- hx ?st _ _ => set (x := st) end.
+(* reset at view 0 leaves the cache alone and clears the decision flag *)
+Lemma reset0_spec ts s0 : hx s0 (reset cfg 0 ts) (fun _ s _ => cache s = cache s0 /\ blockProcessed s = false).
+Proof.
+  unfold reset. cbn [Z.eqb]. unfold unsubscribeFromTransactions, GetPrimaryIndex. xs.
+  all: cbn; auto.
+Qed.
+
+Lemma init_unfold v ts : init cfg v ts = initializeConsensus_body cfg (initializeConsensus cfg 257) v ts.
+Proof. reflexivity. Qed.
+
+(* the initialisation made by Start (fresh cache: nothing to replay) ends undecided *)
+Lemma start_init ts s1 : Inv s1 -> cache s1 = [] -> hx s1 (init cfg 0 ts) (fun _ s tr => Inv s /\ trG G tr /\ U s).
+Proof.
+  intros I1 C1. rewrite init_unfold. generalize (initializeConsensus cfg 257) as ic. intros ic.
+  unfold initializeConsensus_body.
+  eapply x_call; [apply (x_conj _ _ _ _ (k_reset 0 ts s1 I1) (reset0_spec ts s1))|].
+  intros [] s2 n2 ((I2 & T2) & (C2 & B2)). cbn beta. rewrite C1 in C2.
+  apply x_get.
+  eapply x_call with (Qx := fun _ s tr => s = s2 /\ trG G tr).
+  { destruct (IsPrimary s2); [apply x_ret; split; [reflexivity|apply trG_nil]|]. unfold WatchOnly. xs; split; auto; trs. }
+  intros [] s3 n3 (-> & T3). cbn beta.
+  unfold StopTxFlow at 1. unfold ask_unit at 1. apply x_ask. intros [] c Hc. apply x_modify. apply x_get.
+  cbn [cache set]. rewrite C2. cbn [filter assoc_get]. apply x_ret_bind.
+  set_cur s4.
+  assert (I4 : Inv s4) by (unfold Inv, s4 in *; cbn; exact I2).
+  assert (U4 : U s4) by (unfold U, s4; cbn; exact B2).
+  istepd (toI _ f_WatchOnly); [apply x_ret; split; [assumption|split; [trs|assumption]]|].
+  apply x_get.
+  eapply x_call with (Qx := fun _ s5 tr => Inv s5 /\ U s5 /\ trG G tr).
+  { match goal with |- context[if ?b then _ else _] => destruct b end.
+    - unfold ask_now. apply x_ask. intros t c2 Hc2. apply x_ret. split; [assumption|split; [assumption|trs]].
+    - apply x_ret. split; [assumption|split; [assumption|trs]]. }
+  intros timeout s5 n5 (I5 & U5 & T5). cbn beta.
+  eapply x_rt_last; [apply (f_changeTimer timeout)|]. intros [] s6 n6 R6 T6.
+  split; [exact (RI_Inv _ _ (RF_RI _ _ R6) I5)|split; [trs|exact (RF_U _ _ R6 U5)]].
+Qed.
 
 Lemma k_Start ts : kI (Start cfg ts).
-Proof. unfold Start. kp_go leafK. Qed.
+Proof.
+  intros s0 H0. unfold Start. apply x_modify. set_cur s1.
+  assert (I1 : Inv s1) by (unfold Inv, s1 in *; cbn; exact H0).
+  eapply x_call; [apply (start_init ts s1 I1 eq_refl)|]. intros [] s2 n2 (I2 & T2 & U2). cbn beta.
+  apply x_get. destruct (IsPrimary s2); [|kret].
+  istepd (toI _ f_WatchOnly); [kret|].
+  eapply x_conseq; [apply (b_sendPrepareRequest true); assumption|]. cbn. intros [] s4 n4 (I4 & T4). split; [exact I4|trs].
+Qed.
 Lemma k_Reset ts : kI (Reset cfg ts). Proof. apply k_init. Qed.
+
 Lemma k_OnTransaction t : kI (OnTransaction cfg t).
 Proof.
-  unfold OnTransaction. kp_go leafK. apply k_addTransaction. apply k_init.
+  intros s0 H0. unfold OnTransaction. apply x_get. destruct (negb (IsBackup s0)); [kret|].
+  kstep (k_of_i _ i_NotAccepting). destruct r; [kret|].
+  kstep (k_of_f _ f_RequestSentOrReceived). destruct (negb r); [kret|].
+  kstep (k_of_f _ f_ResponseSent). destruct r0; [kret|].
+  kstep (k_of_f _ f_PreCommitSent). destruct r0; [kret|].
+  kstep (k_of_f _ f_CommitSent). destruct r0; [kret|].
+  apply x_get. destruct (blockProcessed s4) eqn:Eb; cbn [orb]; [kret|].
+  destruct (zlen (MissingTransactions s4) =? 0); [kret|]. cbv zeta.
+  match goal with |- context[if ?b then _ else _] => destruct b end; [kret|].
+  apply x_modify. set_cur s5.
+  assert (I5 : Inv s5) by (unfold Inv, s5 in *; cbn; assumption).
+  assert (U5 : U s5) by (unfold U, s5; cbn; exact Eb).
+  eapply x_conseq; [apply (b_addTransaction (init cfg) k_init t s5 I5 U5)|]. cbn. intros [] s6 n6 (I6 & T6). split; [exact I6|trs].
 Qed.
+
 Lemma k_onTimeout h v force : kI (onTimeout cfg h v force).
 Proof.
-  unfold onTimeout. kp_go leafK. all: try (apply k_sendChangeView; apply k_init).
+  intros s0 H0. unfold onTimeout. eapply x_rt; [apply (toI _ f_WatchOnly)|]. intros wo s1 n1 R1 T1. cbn beta.
+  pose proof (RI_Inv _ _ R1 H0) as I1. apply x_get.
+  destruct wo; cbn [orb]; [kret|]. destruct (blockProcessed s1) eqn:Eb; [kret|].
+  assert (U1 : U s1) by exact Eb.
+  match goal with |- context[if ?b then _ else _] => destruct b end; [kret|].
+  eapply x_call with (Qx := fun _ s tr => Inv s /\ U s /\ trG G tr).
+  { destruct (IsPrimary s1); [|apply x_ret; split; [assumption|split; [assumption|trs]]].
+    eapply x_rt_last; [apply (toI _ f_RequestSentOrReceived)|]. intros rs s2 n2 R2 T2.
+    split; [exact (RI_Inv _ _ R2 I1)|split; [exact (RI_U _ _ R2 U1)|trs]]. }
+  intros rs s2 n2 (I2 & U2 & T2). cbn beta.
+  match goal with |- context[if ?b then _ else _] => destruct b end.
+  { eapply x_conseq; [apply b_sendPrepareRequest; assumption|]. cbn. intros [] s3 n3 (I3 & T3). split; [exact I3|trs]. }
+  match goal with |- context[if ?b then _ else _] => destruct b end; [|kret].
+  istepd (toI _ f_CommitSent).
+  - apply x_ret_bind. cbn [orb]. istep i_sendRecoveryMessage. apply x_get. ilast (toI _ (f_changeTimer (shl64 (timePerBlock s3) 1))).
+  - istepd (toI _ f_PreCommitSent); cbn [orb].
+    + istep i_sendRecoveryMessage. apply x_get. ilast (toI _ (f_changeTimer (shl64 (timePerBlock s4) 1))).
+    + apply x_get.
+      eapply x_call with (Qx := fun _ s tr => Inv s /\ U s /\ trG G tr).
+      { match goal with |- context[if ?b then _ else _] => destruct b end; [|apply x_ret; split; [assumption|split; [assumption|trs]]].
+        destruct force.
+        - istep (toI _ (f_changeTimer (shl64 (timePerBlock s3) 1))). istep i_unsubscribe. apply x_ret; split; [assumption|split; [assumption|trs]].
+        - destruct (negb (txSubscriptionOn s3)); [|apply x_ret; split; [assumption|split; [assumption|trs]]].
+          apply x_ask. intros txx c Hc. destruct (zlen txx =? 0); [|apply x_ret; split; [assumption|split; [assumption|trs]]].
+          istep i_subscribe. apply x_get.
+          match goal with |- hx ?st (bind (changeTimer ?d) _) _ => istep (toI _ (f_changeTimer d)) end.
+          apply x_ret; split; [assumption|split; [assumption|trs]]. }
+      intros stop s5 n5 (I5 & U5 & T5). cbn beta. destruct stop; [kret|].
+      eapply x_conseq; [apply (b_sendChangeView (init cfg) k_init CVTimeout); assumption|]. cbn. intros [] s6 n6 (I6 & T6). split; [exact I6|trs].
 Qed.
 Lemma k_OnTimeout h v : kI (OnTimeout cfg h v). Proof. apply k_onTimeout. Qed.
 Lemma k_OnNewTransaction : kI (OnNewTransaction cfg).
-Proof. unfold OnNewTransaction. kp_go leafK. apply k_onTimeout. Qed.
+Proof.
+  intros s0 H0. unfold OnNewTransaction. apply x_get. destruct (negb (txSubscriptionOn s0)); [kret|].
+  apply x_ask. intros h c Hc. apply x_ask. intros v c2 Hc2.
+  eapply x_conseq; [apply (k_onTimeout h v true s0 H0)|]. cbn. intros [] s n (I1 & T1). split; [exact I1|trs].
+Qed.
 Lemma k_run_event e : kI (run_event cfg e).
 Proof.
   destruct e; cbn [run_event].
@@ -931,17 +1147,23 @@ Proof. intros HR Hs Hin. pose proof (gates_history cfg _ _ _ _ _ HR Hs) as HT. u
 
 Theorem response_gate st ev sc st' tr s p : Reach cfg st -> step cfg st ev sc = Ok (st', tr) ->
   In (s, CBroadcast p) tr -> p_type p = PrepareResponseT -> RespGuard s p.
-Proof. intros HR Hs Hin Ty. pose proof (gate_at _ _ _ _ _ _ _ HR Hs Hin) as H. unfold G in H. rewrite Ty in H. exact H. Qed.
+Proof. intros HR Hs Hin Ty. pose proof (gate_at _ _ _ _ _ _ _ HR Hs Hin) as [H _]. rewrite Ty in H. exact H. Qed.
 Theorem commit_gate st ev sc st' tr s p : Reach cfg st -> step cfg st ev sc = Ok (st', tr) ->
   In (s, CBroadcast p) tr -> p_type p = CommitT -> CommitGuard cfg s.
-Proof. intros HR Hs Hin Ty. pose proof (gate_at _ _ _ _ _ _ _ HR Hs Hin) as H. unfold G in H. rewrite Ty in H. exact H. Qed.
+Proof. intros HR Hs Hin Ty. pose proof (gate_at _ _ _ _ _ _ _ HR Hs Hin) as [H _]. rewrite Ty in H. exact H. Qed.
 Theorem precommit_gate st ev sc st' tr s p : Reach cfg st -> step cfg st ev sc = Ok (st', tr) ->
   In (s, CBroadcast p) tr -> p_type p = PreCommitT -> PreCommitGuard cfg s.
-Proof. intros HR Hs Hin Ty. pose proof (gate_at _ _ _ _ _ _ _ HR Hs Hin) as H. unfold G in H. rewrite Ty in H. exact H. Qed.
+Proof. intros HR Hs Hin Ty. pose proof (gate_at _ _ _ _ _ _ _ HR Hs Hin) as [H _]. rewrite Ty in H. exact H. Qed.
+Theorem broadcast_undecided st ev sc st' tr s p : Reach cfg st -> step cfg st ev sc = Ok (st', tr) ->
+  In (s, CBroadcast p) tr -> p_type p <> RecoveryMessageT -> blockProcessed s = false.
+Proof. intros HR Hs Hin Ty. pose proof (gate_at _ _ _ _ _ _ _ HR Hs Hin) as [_ H]. exact (H Ty). Qed.
 Theorem processblock_gate st ev sc st' tr s h e : Reach cfg st -> step cfg st ev sc = Ok (st', tr) ->
-  In (s, CProcessBlock h e) tr -> commit_quorum s.
+  In (s, CProcessBlock h e) tr -> commit_quorum s /\ blockProcessed s = false.
 Proof. intros HR Hs Hin. exact (gate_at _ _ _ _ _ _ _ HR Hs Hin). Qed.
 Theorem processpreblock_gate st ev sc st' tr s h e : Reach cfg st -> step cfg st ev sc = Ok (st', tr) ->
   In (s, CProcessPreBlock h e) tr -> amev_on cfg s = true /\ precommit_quorum s /\ preBlockProcessed s = false.
+Proof. intros HR Hs Hin. exact (gate_at _ _ _ _ _ _ _ HR Hs Hin). Qed.
+Theorem timer_gate st ev sc st' tr s h v d : Reach cfg st -> step cfg st ev sc = Ok (st', tr) ->
+  In (s, CTimerReset h v d) tr -> h = BlockIndex s /\ v = ViewNumber s.
 Proof. intros HR Hs Hin. exact (gate_at _ _ _ _ _ _ _ HR Hs Hin). Qed.
 End Corollaries.
